@@ -3,28 +3,48 @@
 
   `exec_refines_lexical_partial`: for the command fragment
 
-      raw text, {print e} (no directives), {css}, {debugger}, {log}, {if}/{elseif}/{else},
-      {switch}/{case}/{default}, {foreach $x in [e₁, …]}…{ifempty}… (the list given as a literal),
-      {for $i in range(a[, b[, s]])} / {foreach … in range(…)},
-      {let $x: e /}, {let $x}…{/let}, {call} without a data attribute and with value params, header params
+      raw text, {print e} with directives (|d₁:a₁,…|d₂ …, arguments in the expression fragment), {css},
+      {debugger}, {log}, {if}/{elseif}/{else},
+      {switch}/{case}/{default},
+      {foreach $x in L}…{ifempty}… / {for $i in L} with L a list literal [e₁, …], range(a[, b[, s]]) or a
+        variable $l,
+      {let $x: e /}, {let $x}…{/let},
+      {call} without a data attribute, with data="all", with data="$m" (a variable) or data="[k₁: e₁, …]" (a
+        map literal), with value params and content params ({param k}…{/param}),
+      {msg} without a message bundle (text, placeholders — commands of the fragment or HTML tags —, {plural}),
+      header params
       — nested arbitrarily, templates calling templates to any depth (`render_refines_lexical_partial`),
       with expressions of the scalar operator fragment of Props/C01.lean,
 
-  over scalar data: whenever the lexical specification yields text, the model's walk (dynamic scope
-  stack over a heap of frames, Model/Eval.lean) ends ok having written exactly that text, and the
-  bindings visible afterwards are exactly those of the specification's environment — in particular a
-  `let` is visible to the end of its block and not after it, and shadows an outer name only there;
-  whenever the specification yields an error the model yields an error.
+  over data whose values are scalars or — under the names `coll`, which the scalar expressions do not
+  read — lists of scalars and maps of scalars: whenever the lexical specification yields text, the model's
+  walk (dynamic scope stack over a heap of frames, Model/Eval.lean) ends ok having written exactly that
+  text, and the bindings visible afterwards are exactly those of the specification's environment — in
+  particular a `let` is visible to the end of its block and not after it, and shadows an outer name only
+  there; whenever the specification yields an error the model yields an error.
 
-  {foreach} over a list VALUE is `foreach_over_value_refines`: for any list expression whose evaluation
-  agrees with the specification's (e.g. a variable bound to a list of scalars, `list_variable_agrees`);
-  it is a theorem beside the fragment because list values are outside the scalar expression fragment.
+  data="all": `Rel` carries, next to the bindings, `EntRel`: the frames `alldata` passes from the running
+  scope bind exactly the specification's `entry` bindings, and the top (let) frame is not among them — so
+  what a data="all" call passes is the template's ENTRY data whatever was {let}-bound since.
+  data="$m" / a map literal: the callee's data scope is the map's frame (read-only) under a fresh param
+  frame; it binds the map's entries (`MapSim`; a repeated key of a literal: the first item on both sides).
+
+  Print directives: the specification takes a directive semantics `Spec.Eval.DirSem` as a parameter (which
+  names exist, their arities, which cancel autoescaping, what an implementation computes) and fixes the
+  loop itself (left to right, unknown name / wrong number of arguments = error, arguments evaluated left
+  to right, escape last iff not cancelled).  The theorems hold for every `dsem` with `DirOk g dsem`: the
+  same table as the interpreter's and implementations that `applyDirective` agrees with on scalars;
+  `modelDirSem` (the interpreter's own library read as a `DirSem`) is one (`modelDirSem_ok`).  Without a
+  `DirSem` a print with directives is `unspec` as before.
+
+  `foreach_over_value_refines` / `list_variable_agrees` are the {foreach}-over-a-value statements of the
+  earlier rounds (now instances of the fragment: `forc_core` with `ValSim.of_var`).
 
   Still outside (exactly): expressions beyond Props/C01's scalar operator fragment (accesses, collection
-  literals other than a loop's list literal, functions other than a loop's range — hence also `index` /
-  `isFirst` / `isLast`), print directives, {call} with data="all" or data="$e" (the caller's entry data would
-  have to be related to the frames `alldata` passes; maps are not scalars), content params
-  ({param k}…{/param}), {msg}.  Those are covered by the scoping theorems of Props/C02.lean and by the Spec.render oracle of the C02exec correspondence.
+  literals other than a loop's list literal and a call's map literal, functions other than a loop's range —
+  hence also `index` / `isFirst` / `isLast`), collections nested in collections, {msg} with a message bundle (the
+  specification leaves the translated text open: `hasBundle` ⇒ unspec).  Those are covered by the scoping theorems of Props/C02.lean and by
+  the Spec.render oracle of the C02exec correspondence.
 -/
 import SoyVerif.Lemmas.ExecRefine
 import SoyVerif.Lemmas.RangeRefine
@@ -35,85 +55,207 @@ open SoyVerif.Spec.Eval (Val Out)
 open SoyVerif.Props.C01 (frag EnvRel)
 open SoyVerif.Props.C02 (ScopeOk)
 
-def optFrag : Option Expr → Bool
+def optFrag (coll : Bytes → Bool) : Option Expr → Bool
   | none => true
-  | some e => frag e
-
-/-- the params of a call: values of the expression fragment (no content blocks) -/
-def paramsFrag : ParamList → Bool
-  | .nil => true
-  | .value _ _ e r => frag e && paramsFrag r
-  | .content _ _ _ _ => false
+  | some e => frag coll e
 
 /-- the items of a list literal -/
-def fragList : ExprList → Bool
+def fragList (coll : Bytes → Bool) : ExprList → Bool
   | .nil => true
-  | .cons e r => frag e && fragList r
+  | .cons e r => frag coll e && fragList coll r
+
+/-- the directives of a print: their arguments in the expression fragment -/
+def dirsFrag (coll : Bytes → Bool) (ds : List Directive) : Bool := ds.all fun d => d.args.all (frag coll)
+
+/-- the items of a map literal -/
+def mapFrag (coll : Bytes → Bool) : MapItems → Bool
+  | .nil => true
+  | .cons _ e r => frag coll e && mapFrag coll r
+
+/-- what a {call} passes as data="…": a map literal of scalars, a variable -/
+def dataFrag (coll : Bytes → Bool) : Expr → Bool
+  | .map _ items => mapFrag coll items
+  | .dataRef _ key .nil => key != sIj && !C01.isHelper key
+  | _ => false
+
+/-- what a {foreach} / {for} ranges over: a list literal, a range, a variable -/
+def listFrag (coll : Bytes → Bool) : Expr → Bool
+  | .list _ items => fragList coll items
+  | .func _ name args => name == fRange && fragList coll args
+  | .dataRef _ key .nil => key != sIj && !C01.isHelper key
+  | _ => false
 
 mutual
-def cfrag : Cmd → Bool
+def cfrag (coll : Bytes → Bool) : Cmd → Bool
   | .rawText _ _ => true
-  | .print _ a dirs => dirs.isEmpty && frag a
-  | .css _ e _ => optFrag e
+  | .print _ a dirs => frag coll a && dirsFrag coll dirs
+  | .css _ e _ => optFrag coll e
   | .debugger _ => true
-  | .log _ b => bfrag b
-  | .ifc _ conds => condsFrag conds
-  | .switch _ v cases => frag v && casesFrag cases
-  | .forc _ _ (.list _ items) body none => fragList items && bfrag body
-  | .forc _ _ (.func _ name args) body none => name == fRange && fragList args && bfrag body
-  | .forc _ _ (.func _ name args) body (some b) => name == fRange && fragList args && bfrag body && bfrag b
-  | .forc _ _ (.list _ items) body (some b) => fragList items && bfrag body && bfrag b
-  | .call _ _ false none ps => paramsFrag ps
-  | .letValue _ _ e => frag e
-  | .letContent _ _ b => bfrag b
+  | .log _ b => bfrag coll b
+  | .ifc _ conds => condsFrag coll conds
+  | .switch _ v cases => frag coll v && casesFrag coll cases
+  | .forc _ _ e body none => listFrag coll e && bfrag coll body
+  | .forc _ _ e body (some b) => listFrag coll e && bfrag coll body && bfrag coll b
+  | .msg _ _ _ _ _ body => partsFrag coll body
+  | .call _ _ false none ps => paramsFrag coll ps
+  | .call _ _ true none ps => paramsFrag coll ps
+  | .call _ _ false (some d) ps => dataFrag coll d && paramsFrag coll ps
+  | .letValue _ _ e => frag coll e
+  | .letContent _ _ b => bfrag coll b
   | .headerParam _ _ _ _ _ _ => true
   | _ => false
-def bfrag : Block → Bool
-  | .mk _ cs => csFrag cs
-def csFrag : CmdList → Bool
+def bfrag (coll : Bytes → Bool) : Block → Bool
+  | .mk _ cs => csFrag coll cs
+def csFrag (coll : Bytes → Bool) : CmdList → Bool
   | .nil => true
-  | .cons c r => cfrag c && csFrag r
-def condsFrag : CondList → Bool
+  | .cons c r => cfrag coll c && csFrag coll r
+def condsFrag (coll : Bytes → Bool) : CondList → Bool
   | .nil => true
-  | .cons _ c b r => optFrag c && bfrag b && condsFrag r
-def casesFrag : CaseList → Bool
+  | .cons _ c b r => optFrag coll c && bfrag coll b && condsFrag coll r
+def casesFrag (coll : Bytes → Bool) : CaseList → Bool
   | .nil => true
-  | .cons _ vs b r => vs.all frag && bfrag b && casesFrag r
+  | .cons _ vs b r => vs.all (frag coll) && bfrag coll b && casesFrag coll r
+/-- the parts of a {msg}: text, placeholders (commands of the fragment, HTML tags), plurals -/
+def partsFrag (coll : Bytes → Bool) : MsgParts → Bool
+  | .nil => true
+  | .text _ _ r => partsFrag coll r
+  | .ph _ _ b r => phFrag coll b && partsFrag coll r
+  | .plural _ _ v cases _ d r => frag coll v && plFrag coll cases && partsFrag coll d && partsFrag coll r
+def phFrag (coll : Bytes → Bool) : MsgPhBody → Bool
+  | .htmlTag _ _ => true
+  | .cmd c => cfrag coll c
+def plFrag (coll : Bytes → Bool) : PluralCases → Bool
+  | .nil => true
+  | .cons _ _ _ b r => partsFrag coll b && plFrag coll r
+/-- the params of a call: values of the expression fragment, content blocks of the command fragment -/
+def paramsFrag (coll : Bytes → Bool) : ParamList → Bool
+  | .nil => true
+  | .value _ _ e r => frag coll e && paramsFrag coll r
+  | .content _ _ b r => bfrag coll b && paramsFrag coll r
 end
 
-/-- the model's scope (through the heap) and the lexical environment bind the same scalars -/
-def Rel (g : GEnv) (ctx : Scope) (st : St) (env : Spec.Eval.Env) : Prop := EnvRel (eenv g ctx st) env
+/-- a scalar, a list of scalars or a map of scalars -/
+def Shallow : Value → Bool
+  | .list _ xs => xs.all Scalar
+  | .map _ kvs => kvs.all fun kv => Scalar kv.2
+  | _ => true
 
-theorem Rel.of_lookup {g : GEnv} {ctx : Scope} {st st' : St} {env : Spec.Eval.Env} (h : Rel g ctx st env)
-    (hl : ∀ k, lookup st'.heap ctx k = lookup st.heap ctx k) : Rel g ctx st' env := by
-  refine ⟨fun k hk => ?_, fun k => ?_, h.globals⟩
+theorem Shallow.of_scalar {v : Value} (h : Scalar v = true) : Shallow v = true := by
+  cases v <;> simp_all [Scalar, Shallow]
+
+/-- what the name `k` may hold: a scalar, or — under the names `coll` — a list or a map of scalars -/
+def OkAt (coll : Bytes → Bool) (k : Bytes) (v : Value) : Prop := (coll k = false → Scalar v = true) ∧ Shallow v = true
+
+theorem OkAt.of_scalar {coll : Bytes → Bool} {k : Bytes} {v : Value} (h : Scalar v = true) : OkAt coll k v :=
+  ⟨fun _ => h, Shallow.of_scalar h⟩
+
+/-- the frames of `cd` bind exactly `B` -/
+def FrameRel (coll : Bytes → Bool) (heap : List Cell) (cd : Scope) (B : Spec.Eval.Binds) : Prop :=
+  ∀ k, absV (lookup heap cd k) = (Spec.Eval.find B k).getD .undefined ∧ OkAt coll k (lookup heap cd k)
+
+/-- the running template's ENTRY data — what a data="all" call passes — against the specification's `entry`
+    bindings: the scope is an unmarked top frame above frames whose `alldata` part binds exactly `entry`,
+    and the top frame is not one of the passed frames (so a {let} cannot change what is passed) -/
+def EntRel (coll : Bytes → Bool) (entry : Spec.Eval.Binds) (ctx : Scope) (st : St) : Prop :=
+  ∃ f r sc, ctx = f :: r ∧ f.entered = false ∧ alldata r = some sc ∧ (∀ x ∈ sc, x.ref ≠ f.ref) ∧
+    (∀ x ∈ sc, x.ref < st.heap.length) ∧ FrameRel coll st.heap sc entry
+
+/-- the model's scope (through the heap) and the lexical environment bind the same scalars, and the frames
+    a data="all" call would pass bind the template's entry data -/
+structure Rel (coll : Bytes → Bool) (g : GEnv) (entry : Spec.Eval.Binds) (ctx : Scope) (st : St) (env : Spec.Eval.Env) : Prop where
+  base : EnvRel coll (eenv g ctx st) env
+  shallow : ∀ k, Shallow (lookup st.heap ctx k) = true
+  ent : EntRel coll entry ctx st
+
+theorem alldata_sub : ∀ (r sc : Scope), alldata r = some sc → ∀ x ∈ sc, x ∈ r := by
+  intro r sc h x hx
+  obtain ⟨pre, f, rest, h1, h2, _, _⟩ := C02.alldata_spec r sc h
+  rw [h1]; rw [h2] at hx
+  exact List.mem_append_right _ hx
+
+/-- fresh cells at the end of the heap -/
+theorem Ext.append (st : St) (cells : List Cell) : Ext (fun _ => False) st { st with heap := st.heap ++ cells } :=
+  ⟨by simp, fun i c hc => ⟨c, by
+    have hi : i < st.heap.length := (List.getElem?_eq_some_iff.mp hc).1
+    simp [List.getElem?_append_left hi, hc], rfl, fun _ => rfl⟩, rfl⟩
+
+theorem FrameRel.of_lookup {coll : Bytes → Bool} {heap heap' : List Cell} {cd : Scope} {B : Spec.Eval.Binds} (h : FrameRel coll heap cd B)
+    (hl : ∀ k, lookup heap' cd k = lookup heap cd k) : FrameRel coll heap' cd B :=
+  fun k => by rw [hl k]; exact h k
+
+/-- a state change that leaves the frames of the scope — other than writable ones it does not contain —
+    alone keeps the relation -/
+theorem Rel.of_ext {coll : Bytes → Bool} {g : GEnv} {entry : Spec.Eval.Binds} {ctx : Scope} {st st' : St} {env : Spec.Eval.Env} {W : Nat → Prop}
+    (h : Rel coll g entry ctx st env) (e : Ext W st st') (hok : ScopeOk ctx st) (hW : ∀ f ∈ ctx, ¬ W f.ref) :
+    Rel coll g entry ctx st' env := by
+  have hl := lookup_ext_W e ctx hok hW
+  refine ⟨⟨fun k hk => ?_, fun k hc => ?_, h.base.globals⟩, fun k => ?_, ?_⟩
   · show absV (lookup st'.heap ctx k) = _
-    rw [hl k]; exact h.vars k hk
+    rw [hl k]; exact h.base.vars k hk
   · show Scalar (lookup st'.heap ctx k) = true
-    rw [hl k]; exact h.scalar k
+    rw [hl k]; exact h.base.scalar k hc
+  · rw [hl k]; exact h.shallow k
+  · obtain ⟨f, r, sc, hc, hf, ha, hne, hlt, hfr⟩ := h.ent
+    refine ⟨f, r, sc, hc, hf, ha, hne, fun x hx => Nat.lt_of_lt_of_le (hlt x hx) e.len, ?_⟩
+    have hsub : ∀ x ∈ sc, x ∈ ctx := fun x hx => by rw [hc]; exact List.mem_cons_of_mem _ (alldata_sub r sc ha x hx)
+    exact hfr.of_lookup (lookup_ext_W e sc (fun x hx => hlt x hx) (fun x hx => hW x (hsub x hx)))
+
+theorem Rel.of_heap {coll : Bytes → Bool} {g : GEnv} {entry : Spec.Eval.Binds} {ctx : Scope} {st st' : St} {env : Spec.Eval.Env}
+    (h : Rel coll g entry ctx st env) (hh : st'.heap = st.heap) : Rel coll g entry ctx st' env := by
+  refine ⟨⟨fun k hk => ?_, fun k hc => ?_, h.base.globals⟩, fun k => ?_, ?_⟩
+  · show absV (lookup st'.heap ctx k) = _
+    rw [hh]; exact h.base.vars k hk
+  · show Scalar (lookup st'.heap ctx k) = true
+    rw [hh]; exact h.base.scalar k hc
+  · rw [hh]; exact h.shallow k
+  · obtain ⟨f, r, sc, hc, hf, ha, hne, hlt, hfr⟩ := h.ent
+    exact ⟨f, r, sc, hc, hf, ha, hne, by rw [hh]; exact hlt, by rw [hh]; exact hfr⟩
+
+/-- writes to the top frame do not reach the entry data -/
+theorem EntRel.of_ext_top {coll : Bytes → Bool} {entry : Spec.Eval.Binds} {ctx : Scope} {st st' : St} (h : EntRel coll entry ctx st)
+    (e : Ext (fun i => i = top ctx) st st') : EntRel coll entry ctx st' := by
+  obtain ⟨f, r, sc, hc, hf, ha, hne, hlt, hfr⟩ := h
+  refine ⟨f, r, sc, hc, hf, ha, hne, fun x hx => Nat.lt_of_lt_of_le (hlt x hx) e.len, ?_⟩
+  exact hfr.of_lookup (lookup_ext_W e sc (fun x hx => hlt x hx) (fun x hx hw => hne x hx (by rw [hc] at hw; exact hw)))
+
+/-- a pushed (unmarked, empty) frame: same bindings, same entry data -/
+theorem Rel.pushed {coll : Bytes → Bool} {g : GEnv} {entry : Spec.Eval.Binds} {ctx : Scope} {st : St} {env : Spec.Eval.Env}
+    (h : Rel coll g entry ctx st env) (hok : ScopeOk ctx st) : Rel coll g entry (push ctx st).1 (push ctx st).2 env := by
+  obtain ⟨hctx1, _, hext1, _⟩ := push_spec ctx st
+  refine ⟨⟨fun k hk => ?_, fun k hc => ?_, h.base.globals⟩, fun k => ?_, ?_⟩
+  · show absV (lookup (push ctx st).2.heap (push ctx st).1 k) = _
+    rw [lookup_push ctx st hok k]; exact h.base.vars k hk
+  · show Scalar (lookup (push ctx st).2.heap (push ctx st).1 k) = true
+    rw [lookup_push ctx st hok k]; exact h.base.scalar k hc
+  · rw [lookup_push ctx st hok k]; exact h.shallow k
+  · obtain ⟨f, r, sc, hc, hf, ha, hne, hlt, hfr⟩ := h.ent
+    refine ⟨⟨st.heap.length, false⟩, ctx, sc, hctx1, rfl, by rw [hc, alldata, hf]; simpa using ha, ?_, ?_, ?_⟩
+    · intro x hx e; have := hlt x hx; simp at e; omega
+    · intro x hx; exact Nat.lt_of_lt_of_le (hlt x hx) (hext1 (fun _ => False)).len
+    · exact hfr.of_lookup (lookup_ext_W (hext1 (fun _ => False)) sc (fun x hx => hlt x hx) (fun _ _ h => h))
 
 /-- what the model did agrees with what the specification says for a command -/
-def Agree (g : GEnv) (ctx : Scope) (st : St) (r : R) : Spec.Eval.ROut → Prop
-  | .val (out, env') => r.cls = .ok ∧ bufBytes r.st.out = bufBytes st.out ++ out ∧ Rel g ctx r.st env'
+def Agree (coll : Bytes → Bool) (g : GEnv) (entry : Spec.Eval.Binds) (ctx : Scope) (st : St) (r : R) : Spec.Eval.ROut → Prop
+  | .val (out, env') => r.cls = .ok ∧ bufBytes r.st.out = bufBytes st.out ++ out ∧ Rel coll g entry ctx r.st env'
   | .error => r.cls = .err
   | .unspec => True
 
 /-- … and for a block (the environment afterwards is the one before) -/
-def AgreeB (g : GEnv) (ctx : Scope) (st : St) (env : Spec.Eval.Env) (r : R) : Out Bytes → Prop
-  | .val out => r.cls = .ok ∧ bufBytes r.st.out = bufBytes st.out ++ out ∧ Rel g ctx r.st env
+def AgreeB (coll : Bytes → Bool) (g : GEnv) (entry : Spec.Eval.Binds) (ctx : Scope) (st : St) (env : Spec.Eval.Env) (r : R) : Out Bytes → Prop
+  | .val out => r.cls = .ok ∧ bufBytes r.st.out = bufBytes st.out ++ out ∧ Rel coll g entry ctx r.st env
   | .error => r.cls = .err
   | .unspec => True
 
 /-- the specification's agreement does not look at `s.node` -/
-theorem Agree.of_atNode {g : GEnv} {ctx : Scope} {st : St} {p : Nat} {r : R} {o : Spec.Eval.ROut}
-    (h : Agree g ctx (atNode st p) r o) : Agree g ctx st r o := by
+theorem Agree.of_atNode {coll : Bytes → Bool} {g : GEnv} {ctx : Scope} {st : St} {p : Nat} {r : R} {o : Spec.Eval.ROut}
+    (h : Agree coll g entry ctx (atNode st p) r o) : Agree coll g entry ctx st r o := by
   cases o with
   | unspec => trivial
   | error => exact h
   | val q => exact h
 
-theorem AgreeB.of_atNode {g : GEnv} {ctx : Scope} {st : St} {env : Spec.Eval.Env} {p : Nat} {r : R} {o : Out Bytes}
-    (h : AgreeB g ctx (atNode st p) env r o) : AgreeB g ctx st env r o := by
+theorem AgreeB.of_atNode {coll : Bytes → Bool} {g : GEnv} {ctx : Scope} {st : St} {env : Spec.Eval.Env} {p : Nat} {r : R} {o : Out Bytes}
+    (h : AgreeB coll g entry ctx (atNode st p) env r o) : AgreeB coll g entry ctx st env r o := by
   cases o with
   | unspec => trivial
   | error => exact h
@@ -125,27 +267,20 @@ def AgreeT (st : St) (r : R) : Out Bytes → Prop
   | .error => r.cls = .err
   | .unspec => True
 
-/-- the frames of `cd` bind exactly `B` (scalars) -/
-def FrameRel (heap : List Cell) (cd : Scope) (B : Spec.Eval.Binds) : Prop :=
-  ∀ k, absV (lookup heap cd k) = (Spec.Eval.find B k).getD .undefined ∧ Scalar (lookup heap cd k) = true
-
 theorem absV_undefined (mv : Value) (h : absV mv = .undefined) : mv = .undefined := by
   cases mv <;> simp [absV] at h ⊢
 
 /-- expressions in a context: eval_refines_spec_partial through `evalIn` -/
-theorem evalIn_sim {g : GEnv} {ctx : Scope} {st : St} {env : Spec.Eval.Env} (hr : Rel g ctx st env) (e : Expr)
-    (hf : frag e = true) :
+theorem evalIn_sim {g : GEnv} {ctx : Scope} {st : St} {env : Spec.Eval.Env} (hr : Rel coll g entry ctx st env) (e : Expr)
+    (hf : frag coll e = true) :
     (∀ v, Spec.Eval.eval env e = .val v → ∃ mv st1, evalIn g e ctx st = some (mv, st1) ∧ absV mv = v ∧
         Scalar mv = true ∧ st1.heap = st.heap ∧ st1.out = st.out) ∧
     (Spec.Eval.eval env e = .error → evalIn g e ctx st = none) := by
-  have h := C01.eval_refines_spec_partial hr e hf st.next
+  have h := C01.eval_refines_spec_partial hr.base e hf st.next
   refine ⟨fun v hv => ?_, fun herr => ?_⟩
   · obtain ⟨mv, n', h1, h2, h3⟩ := h.1 v hv
     exact ⟨mv, { st with next := n' }, by simp [evalIn, h1], h2, h3, rfl, rfl⟩
   · simp [evalIn, h.2 herr]
-
-theorem Rel.of_heap {g : GEnv} {ctx : Scope} {st st' : St} {env : Spec.Eval.Env} (h : Rel g ctx st env)
-    (hh : st'.heap = st.heap) : Rel g ctx st' env := h.of_lookup (fun k => by rw [hh])
 
 theorem helper_index (v : Bytes) : C01.isHelper (v ++ sIndexSuffix) = true := by
   simp [C01.isHelper, List.isSuffixOf_iff_suffix]
@@ -153,8 +288,8 @@ theorem helper_last (v : Bytes) : C01.isHelper (v ++ sLastIndexSuffix) = true :=
   simp [C01.isHelper, List.isSuffixOf_iff_suffix]
 
 /-- the items of a list literal, left to right -/
-theorem evalArgs_sim {m : EEnv} {env : Spec.Eval.Env} (hr : EnvRel m env) :
-    (items : ExprList) → fragList items = true → ∀ n,
+theorem evalArgs_sim {m : EEnv} {env : Spec.Eval.Env} (hr : EnvRel coll m env) :
+    (items : ExprList) → fragList coll items = true → ∀ n,
       (∀ vs, Spec.Eval.evalList env items = .val vs →
         ∃ mvs n', evalArgs m items n = some (mvs, n') ∧ absL mvs = vs ∧ ∀ x ∈ mvs, Scalar x = true) ∧
       (Spec.Eval.evalList env items = .error → evalArgs m items n = none)
@@ -186,12 +321,12 @@ theorem evalArgs_sim {m : EEnv} {env : Spec.Eval.Env} (hr : EnvRel m env) :
         · simp at h
 
 /-- `{foreach $x in [e₁, …]}`: the list literal through `evalIn` -/
-theorem evalIn_list_sim {g : GEnv} {ctx : Scope} {st : St} {env : Spec.Eval.Env} (hr : Rel g ctx st env) (p : Nat)
-    (items : ExprList) (hf : fragList items = true) :
+theorem evalIn_list_sim {g : GEnv} {ctx : Scope} {st : St} {env : Spec.Eval.Env} (hr : Rel coll g entry ctx st env) (p : Nat)
+    (items : ExprList) (hf : fragList coll items = true) :
     (∀ v, Spec.Eval.eval env (.list p items) = .val v → ∃ id mvs st1, evalIn g (.list p items) ctx st = some (.list id mvs, st1) ∧
         v = .list (absL mvs) ∧ (∀ x ∈ mvs, Scalar x = true) ∧ st1.heap = st.heap ∧ st1.out = st.out) ∧
     (Spec.Eval.eval env (.list p items) = .error → evalIn g (.list p items) ctx st = none) := by
-  have h := evalArgs_sim hr items hf st.next
+  have h := evalArgs_sim hr.base items hf st.next
   rw [Spec.Eval.eval]
   refine ⟨fun v hv => ?_, fun herr => ?_⟩
   · obtain ⟨vs, hv1, hv⟩ := C01.bind_val hv
@@ -202,6 +337,76 @@ theorem evalIn_list_sim {g : GEnv} {ctx : Scope} {st : St} {env : Spec.Eval.Env}
   · rcases C01.bind_err herr with h' | ⟨vs, _, h'⟩
     · simp [evalIn, evalE, h.2 h']
     · simp at h'
+
+theorem find_absK : ∀ (kvs : Frame) (k : Bytes), Spec.Eval.find (absK kvs) k = (Frame.find kvs k).map absV
+  | [], _ => rfl
+  | (k', v) :: r, k => by
+    simp only [absK, Spec.Eval.find, Frame.find]
+    split
+    · rfl
+    · exact find_absK r k
+
+theorem frame_find_mem : ∀ (kvs : Frame) (k : Bytes) (v : Value), Frame.find kvs k = some v → ∃ k', (k', v) ∈ kvs
+  | [], _, _, h => by simp [Frame.find] at h
+  | (k', v') :: r, k, v, h => by
+    simp only [Frame.find] at h
+    split at h
+    · simp only [Option.some.injEq] at h; subst h; exact ⟨k', List.mem_cons_self⟩
+    · obtain ⟨k'', hm⟩ := frame_find_mem r k v h; exact ⟨k'', List.mem_cons_of_mem _ hm⟩
+
+theorem find_filter (B : Spec.Eval.Binds) (key k : Bytes) (h : (key == k) = false) :
+    Spec.Eval.find (B.filter fun kv => kv.1 != key) k = Spec.Eval.find B k := by
+  induction B with
+  | nil => rfl
+  | cons p r ih =>
+    obtain ⟨k', v⟩ := p
+    by_cases hk : k' = key
+    · subst hk
+      simp only [List.filter, bne_self_eq_false, Spec.Eval.find, h, Bool.false_eq_true, if_false]
+      exact ih
+    · have : (k' != key) = true := by simpa using hk
+      simp only [List.filter, this, Spec.Eval.find]
+      rw [ih]
+
+/-- the items of a map literal: the same bindings (a repeated key: the first item on both sides) -/
+theorem evalMapItems_sim {m : EEnv} {env : Spec.Eval.Env} (hr : EnvRel coll m env) :
+    (items : MapItems) → mapFrag coll items = true → ∀ n,
+      (∀ B, Spec.Eval.evalMap env items = .val B →
+        ∃ kvs n', evalMapItems m items n = some (kvs, n') ∧
+          (∀ k, Spec.Eval.find B k = (Frame.find kvs k).map absV) ∧ ∀ kv ∈ kvs, Scalar kv.2 = true) ∧
+      (Spec.Eval.evalMap env items = .error → evalMapItems m items n = none)
+  | .nil, _, n => by
+    rw [Spec.Eval.evalMap, evalMapItems]
+    exact ⟨fun B h => by simp only [Out.val.injEq] at h; exact ⟨[], n, rfl, by rw [← h]; intro k; rfl, by simp⟩, fun h => by simp at h⟩
+  | .cons key e r, hf, n => by
+    simp only [mapFrag, Bool.and_eq_true] at hf
+    have he := C01.eval_refines_spec_partial hr e hf.1 n
+    rw [Spec.Eval.evalMap, evalMapItems]
+    refine ⟨fun B hv => ?_, fun herr => ?_⟩
+    · obtain ⟨v, hv1, hv⟩ := C01.bind_val hv
+      obtain ⟨Br, hv2, hv⟩ := C01.bind_val hv
+      obtain ⟨mv, n1, h1, h2, h3⟩ := he.1 v hv1
+      obtain ⟨kvs, n2, h4, h5, h6⟩ := (evalMapItems_sim hr r hf.2 n1).1 Br hv2
+      simp only [Out.val.injEq] at hv
+      rw [h1]; simp only [h4]
+      refine ⟨(key, mv) :: kvs, n2, rfl, fun k => ?_, ?_⟩
+      · rw [← hv]
+        simp only [Spec.Eval.find, Frame.find]
+        split
+        · simp [h2]
+        · rename_i hk
+          rw [find_filter Br key k (by simpa using hk)]; exact h5 k
+      · intro x hx
+        rcases List.mem_cons.mp hx with rfl | hx
+        · exact h3
+        · exact h6 x hx
+    · rcases C01.bind_err herr with h | ⟨v, hv1, herr⟩
+      · rw [he.2 h]
+      · obtain ⟨mv, n1, h1, _, _⟩ := he.1 v hv1
+        rw [h1]
+        rcases C01.bind_err herr with h | ⟨vr, _, h⟩
+        · simp only [(evalMapItems_sim hr r hf.2 n1).2 h]
+        · simp at h
 
 theorem absL_length : ∀ (l : List Value), (absL l).length = l.length
   | [] => rfl
@@ -232,12 +437,12 @@ theorem applyFn_range_arity (vs : List Val) (h : ¬ ([1, 2, 3].contains vs.lengt
       Spec.Eval.nFloor, Spec.Eval.nCeiling, Spec.Eval.nMin, Spec.Eval.nMax, Spec.Eval.nStrContains]
 
 /-- `{for $i in range(…)}`: the range call through `evalIn` -/
-theorem evalIn_range_sim {g : GEnv} {ctx : Scope} {st : St} {env : Spec.Eval.Env} (hr : Rel g ctx st env) (p : Nat)
-    (args : ExprList) (hf : fragList args = true) :
+theorem evalIn_range_sim {g : GEnv} {ctx : Scope} {st : St} {env : Spec.Eval.Env} (hr : Rel coll g entry ctx st env) (p : Nat)
+    (args : ExprList) (hf : fragList coll args = true) :
     (∀ v, Spec.Eval.eval env (.func p fRange args) = .val v → ∃ id mvs st1, evalIn g (.func p fRange args) ctx st = some (.list id mvs, st1) ∧
         v = .list (absL mvs) ∧ (∀ x ∈ mvs, Scalar x = true) ∧ st1.heap = st.heap ∧ st1.out = st.out) ∧
     (Spec.Eval.eval env (.func p fRange args) = .error → evalIn g (.func p fRange args) ctx st = none) := by
-  have h := evalArgs_sim hr args hf st.next
+  have h := evalArgs_sim hr.base args hf st.next
   have hloopS : Spec.Eval.isLoopFn fRange = false := by decide
   have hloopM : isLoopFunc fRange = false := by decide
   have har : funcArities fRange = some [1, 2, 3] := by decide
@@ -272,27 +477,63 @@ theorem evalIn_range_sim {g : GEnv} {ctx : Scope} {st : St} {env : Spec.Eval.Env
     · have hlen' : ¬args.length = 1 ∧ ¬args.length = 2 ∧ ¬args.length = 3 := by simpa using hlen
       simp [evalIn, evalE, hloopM, har, hlen']
 
+/-- the interpreter's directive implementations compute what the specification's parameter `F` says, on
+    scalars -/
+def DirAgree (F : Bytes → Val → List Val → Out Val) : Prop :=
+  ∀ impl mv margs, Scalar mv = true → (∀ x ∈ margs, Scalar x = true) →
+    (∀ v', F impl (absV mv) (absL margs) = .val v' →
+      ∃ mv', applyDirective impl mv margs = some mv' ∧ absV mv' = v' ∧ Scalar mv' = true) ∧
+    (F impl (absV mv) (absL margs) = .error → applyDirective impl mv margs = none)
+
+/-- the specification's directive semantics (if one is supplied) is the interpreter's: the same table, and
+    implementations that agree -/
+def DirOk (g : GEnv) (dsem : Option Spec.Eval.DirSem) : Prop :=
+  ∀ D, dsem = some D →
+    (∀ name, D.lookup name = (Directives.lookup g.tbl name).map fun e => (e.arities, e.impl, e.cancel)) ∧
+    DirAgree D.apply
+
+theorem evalPrintAt_undef {g : GEnv} {esc : Bool} {pos : Nat} {arg : Expr} {dirs : List Directive} {ctx : Scope} {st st1 : St}
+    (he : evalIn g arg ctx st = some (.undefined, st1)) : (evalPrintAt g esc pos arg dirs ctx st).cls = .err := by
+  unfold evalPrintAt; rw [he]
+
+theorem evalPrintAt_dirs_none {g : GEnv} {esc : Bool} {pos : Nat} {arg : Expr} {dirs : List Directive} {ctx : Scope} {st st1 : St}
+    {mv : Value} (he : evalIn g arg ctx st = some (mv, st1))
+    (hrun : runDirectives g ctx (dirs ++ obligDirs pos g.oblig) mv esc st1 = none) :
+    (evalPrintAt g esc pos arg dirs ctx st).cls = .err := by
+  unfold evalPrintAt; rw [he]
+  cases mv <;> simp [hrun]
+
+theorem evalPrintAt_str_none {g : GEnv} {esc e' : Bool} {pos : Nat} {arg : Expr} {dirs : List Directive} {ctx : Scope} {st st1 st2 : St}
+    {mv r : Value} (he : evalIn g arg ctx st = some (mv, st1))
+    (hrun : runDirectives g ctx (dirs ++ obligDirs pos g.oblig) mv esc st1 = some (r, e', st2)) (hs : str r = none) :
+    (evalPrintAt g esc pos arg dirs ctx st).cls = .err := by
+  unfold evalPrintAt; rw [he]
+  cases mv <;> simp [hrun, hs]
+
+theorem evalPrintAt_ok {g : GEnv} {esc e' : Bool} {pos : Nat} {arg : Expr} {dirs : List Directive} {ctx : Scope} {st st1 st2 : St}
+    {mv r : Value} {s : Bytes} (he : evalIn g arg ctx st = some (mv, st1)) (hne : mv ≠ .undefined)
+    (hrun : runDirectives g ctx (dirs ++ obligDirs pos g.oblig) mv esc st1 = some (r, e', st2)) (hs : str r = some s) :
+    evalPrintAt g esc pos arg dirs ctx st = ⟨.ok, ctx, if e' then writeAll st2 (escChunks s) else write st2 s⟩ := by
+  unfold evalPrintAt; rw [he]
+  cases mv <;> simp_all
+
 section
-variable (g : GEnv) (hob : g.oblig = []) (esc : Bool) (call : Registry.Tmpl → Run) (hcall : ∀ t, GoodRun (call t))
+variable {coll : Bytes → Bool} (g : GEnv) (hob : g.oblig = []) (esc : Bool) (call : Registry.Tmpl → Run) (hcall : ∀ t, GoodRun (call t))
   (reg : Registry.Reg) (hasBundle : Bool) (entry : Spec.Eval.Binds) (scall : Registry.Tmpl → Spec.Eval.CallEnv → Out Bytes)
-  (hreg : g.reg = reg)
+  (dsem : Option Spec.Eval.DirSem)
+  (hreg : g.reg = reg) (hmsg : hasBundle = false → g.msgs = none) (hdir : DirOk g dsem)
   (hcs : ∀ (t : Registry.Tmpl), t ∈ reg → ∀ (cctx : Scope) (s2 : St) (ce : Spec.Eval.CallEnv),
-    Rel g cctx s2 { vars := ce.entry, loops := [], ij := ce.ij, globals := ce.globals } → Own cctx s2 → ScopeOk cctx s2 →
+    Rel coll g ce.entry cctx s2 { vars := ce.entry, loops := [], ij := ce.ij, globals := ce.globals } → Own cctx s2 → ScopeOk cctx s2 →
     AgreeT s2 (call t cctx s2) (scall t ce))
 
 /-- a block whose body agrees command by command agrees as a block -/
 theorem block_agree (body : Run) (sbody : Spec.Eval.Env → Out Bytes) (hgood : GoodRun body)
-    (hb : ∀ ctx st env, Rel g ctx st env → Own ctx st → ScopeOk ctx st →
-      ∃ o : Spec.Eval.ROut, (Agree g ctx st (body ctx st) o) ∧ sbody env = o.bind fun p => .val p.1)
-    (ctx : Scope) (st : St) (env : Spec.Eval.Env) (hr : Rel g ctx st env) (hok : ScopeOk ctx st) :
-    AgreeB g ctx st env (walkBlockOf body ctx st) (sbody env) := by
+    (hb : ∀ ctx st env, Rel coll g entry ctx st env → Own ctx st → ScopeOk ctx st →
+      ∃ o : Spec.Eval.ROut, (Agree coll g entry ctx st (body ctx st) o) ∧ sbody env = o.bind fun p => .val p.1)
+    (ctx : Scope) (st : St) (env : Spec.Eval.Env) (hr : Rel coll g entry ctx st env) (hok : ScopeOk ctx st) :
+    AgreeB coll g entry ctx st env (walkBlockOf body ctx st) (sbody env) := by
   obtain ⟨hctx1, hown1, hext1, hout1⟩ := push_spec ctx st
-  have hr1 : Rel g (push ctx st).1 (push ctx st).2 env := by
-    refine ⟨fun k hk => ?_, fun k => ?_, hr.globals⟩
-    · show absV (lookup (push ctx st).2.heap (push ctx st).1 k) = _
-      rw [lookup_push ctx st hok k]; exact hr.vars k hk
-    · show Scalar (lookup (push ctx st).2.heap (push ctx st).1 k) = true
-      rw [lookup_push ctx st hok k]; exact hr.scalar k
+  have hr1 : Rel coll g entry (push ctx st).1 (push ctx st).2 env := hr.pushed hok
   have hok1 : ScopeOk (push ctx st).1 (push ctx st).2 := by
     intro f hf
     rw [hctx1] at hf
@@ -320,12 +561,12 @@ theorem block_agree (body : Run) (sbody : Spec.Eval.Env → Out Bytes) (hgood : 
     refine ⟨rfl, by rw [hbytes, hout1], ?_⟩
     -- the block's bindings are gone: every lookup through `ctx` reads what it read before
     rw [heq] at hwb
-    exact hr.of_lookup (C02.lookup_ext hwb.ext ctx hok)
+    exact hr.of_ext hwb.ext hok (fun _ _ h => h)
 
 omit hob in
 /-- the case values of a {switch}: `matchCase` against the specification's `matchAny` -/
 theorem matchCase_sim {ctx : Scope} {env : Spec.Eval.Env} (sv : Value) (hsv : Scalar sv = true) :
-    ∀ (vs : List Expr) (st : St), Rel g ctx st env → vs.all frag = true →
+    ∀ (vs : List Expr) (st : St), Rel coll g entry ctx st env → vs.all (frag coll) = true →
       (∀ b, Spec.Eval.matchAny env (absV sv) vs = .val b →
         ∃ st1, matchCase g ctx sv vs st = some (b, st1) ∧ st1.heap = st.heap ∧ st1.out = st.out) ∧
       (Spec.Eval.matchAny env (absV sv) vs = .error → matchCase g ctx sv vs st = none) := by
@@ -372,22 +613,22 @@ theorem matchCase_sim {ctx : Scope} {env : Spec.Eval.Env} (sv : Value) (hsv : Sc
 def cmdsE : CmdList → Spec.Eval.Env → Spec.Eval.ROut
   | .nil, env => .val ([], env)
   | .cons c rest, env =>
-    (Spec.Eval.renderCmd reg hasBundle esc entry scall c env).bind fun r =>
+    (Spec.Eval.renderCmd reg hasBundle esc entry scall dsem c env).bind fun r =>
       (cmdsE rest r.2).bind fun r2 => .val (r.1 ++ r2.1, r2.2)
 
 theorem renderCmds_eq : ∀ (cs : CmdList) (env : Spec.Eval.Env),
-    Spec.Eval.renderCmds reg hasBundle esc entry scall cs env =
-      (cmdsE esc reg hasBundle entry scall cs env).bind fun p => .val p.1
+    Spec.Eval.renderCmds reg hasBundle esc entry scall dsem cs env =
+      (cmdsE esc reg hasBundle entry scall dsem cs env).bind fun p => .val p.1
   | .nil, env => by rw [Spec.Eval.renderCmds, cmdsE]; rfl
   | .cons c rest, env => by
     rw [Spec.Eval.renderCmds, cmdsE]
-    cases h : Spec.Eval.renderCmd reg hasBundle esc entry scall c env with
+    cases h : Spec.Eval.renderCmd reg hasBundle esc entry scall dsem c env with
     | unspec => rfl
     | error => rfl
     | val r =>
       simp only [Spec.Eval.Out.bind]
       rw [renderCmds_eq rest r.2]
-      cases cmdsE esc reg hasBundle entry scall rest r.2 <;> rfl
+      cases cmdsE esc reg hasBundle entry scall dsem rest r.2 <;> rfl
 
 theorem find_bind (env : Spec.Eval.Env) (name : Bytes) (v : Val) (k : Bytes) :
     (env.bind name v).lookup k = if k == name then v else env.lookup k := by
@@ -400,30 +641,34 @@ theorem find_bind (env : Spec.Eval.Env) (name : Bytes) (v : Val) (k : Bytes) :
 
 /-- binding a scalar in the top frame corresponds to extending the lexical environment -/
 theorem Rel.set {ctx : Scope} {st st2 : St} {env : Spec.Eval.Env} {name : Bytes} {mv : Value}
-    (hr : Rel g ctx st env) (hown : Own ctx st) (hs : Eval.set ctx st name mv = some st2) (hsc : Scalar mv = true) :
-    Rel g ctx st2 (env.bind name (absV mv)) := by
-  refine ⟨fun k hk => ?_, fun k => ?_, hr.globals⟩
+    (hr : Rel coll g entry ctx st env) (hown : Own ctx st) (hs : Eval.set ctx st name mv = some st2) (hsc : Scalar mv = true) :
+    Rel coll g entry ctx st2 (env.bind name (absV mv)) := by
+  refine ⟨⟨fun k hk => ?_, fun k hc => ?_, hr.base.globals⟩, fun k => ?_, hr.ent.of_ext_top (set_ext hown hs)⟩
   · show absV (lookup st2.heap ctx k) = _
     rw [lookup_set hown hs k, find_bind]
     split
     · rfl
-    · exact hr.vars k hk
+    · exact hr.base.vars k hk
   · show Scalar (lookup st2.heap ctx k) = true
     rw [lookup_set hown hs k]
     split
     · exact hsc
-    · exact hr.scalar k
+    · exact hr.base.scalar k hc
+  · rw [lookup_set hown hs k]
+    split
+    · exact Shallow.of_scalar hsc
+    · exact hr.shallow k
 
 omit hob in
 /-- the iterations of a {foreach}: each runs in a frame of its own that binds the loop variable (and the
     helpers, which the fragment cannot read); afterwards every binding is what it was -/
 theorem loop_agree (body : Run) (sbody : Spec.Eval.Env → Out Bytes) (hgood : GoodRun body)
-    (hb : ∀ ctx st env, Rel g ctx st env → Own ctx st → ScopeOk ctx st →
-      ∃ o : Spec.Eval.ROut, (Agree g ctx st (body ctx st) o) ∧ sbody env = o.bind fun p => .val p.1)
+    (hb : ∀ ctx st env, Rel coll g entry ctx st env → Own ctx st → ScopeOk ctx st →
+      ∃ o : Spec.Eval.ROut, (Agree coll g entry ctx st (body ctx st) o) ∧ sbody env = o.bind fun p => .val p.1)
     (var : Bytes) (last : Int) (lastN : Nat) :
     ∀ (xs : List Value) (i : Nat) (ctx : Scope) (st : St) (env : Spec.Eval.Env),
-      Rel g ctx st env → ScopeOk ctx st → (∀ x ∈ xs, Scalar x = true) →
-      AgreeB g ctx st env (forLoop body var last xs i ctx st) (Spec.Eval.loopSpec sbody env var lastN (absL xs) i) := by
+      Rel coll g entry ctx st env → ScopeOk ctx st → (∀ x ∈ xs, Scalar x = true) →
+      AgreeB coll g entry ctx st env (forLoop body var last xs i ctx st) (Spec.Eval.loopSpec sbody env var lastN (absL xs) i) := by
   intro xs
   induction xs with
   | nil => intro i ctx st env hr _ _; unfold forLoop; rw [absL, Spec.Eval.loopSpec]; exact ⟨rfl, by simp, hr⟩
@@ -464,8 +709,8 @@ theorem loop_agree (body : Run) (sbody : Spec.Eval.Env → Out Bytes) (hgood : G
               else lookup st.heap ctx k := by
             intro k
             rw [lookup_set own3 h4 k, lookup_set own2 h3 k, lookup_set hown1 h2 k, lookup_push ctx st hok k]
-          have hr4 : Rel g (push ctx st).1 st4 { (env.bind var (absV x)) with loops := (var, i, lastN) :: env.loops } := by
-            refine ⟨fun k hk => ?_, fun k => ?_, hr.globals⟩
+          have hr4 : Rel coll g entry (push ctx st).1 st4 { (env.bind var (absV x)) with loops := (var, i, lastN) :: env.loops } := by
+            refine ⟨⟨fun k hk => ?_, fun k hc => ?_, hr.base.globals⟩, fun k => ?_, (hr.pushed hok).ent.of_ext_top e4⟩
             · show absV (lookup st4.heap (push ctx st).1 k) = (env.bind var (absV x)).lookup k
               rw [hlk k, find_bind]
               have n1 : (k == var ++ sIndexSuffix) = false := by
@@ -475,7 +720,7 @@ theorem loop_agree (body : Run) (sbody : Spec.Eval.Env → Out Bytes) (hgood : G
               simp only [n1, n2, Bool.false_eq_true, if_false]
               split
               · rfl
-              · exact hr.vars k hk
+              · exact hr.base.vars k hk
             · show Scalar (lookup st4.heap (push ctx st).1 k) = true
               rw [hlk k]
               split
@@ -484,7 +729,15 @@ theorem loop_agree (body : Run) (sbody : Spec.Eval.Env → Out Bytes) (hgood : G
                 · exact hx
                 · split
                   · rfl
-                  · exact hr.scalar k
+                  · exact hr.base.scalar k hc
+            · rw [hlk k]
+              split
+              · rfl
+              · split
+                · exact Shallow.of_scalar hx
+                · split
+                  · rfl
+                  · exact hr.shallow k
           have hok4 : ScopeOk (push ctx st).1 st4 := by
             intro f hf
             rw [hctx1] at hf
@@ -512,7 +765,7 @@ theorem loop_agree (body : Run) (sbody : Spec.Eval.Env → Out Bytes) (hgood : G
             rw [hg.ctx_eq hcls, hctx1]
             simp only [pop_cons]
             have hext : Ext (fun _ => False) st (body (push ctx st).1 st4).st := fresh e5
-            have hr5 : Rel g ctx (body (push ctx st).1 st4).st env := hr.of_lookup (C02.lookup_ext hext ctx hok)
+            have hr5 : Rel coll g entry ctx (body (push ctx st).1 st4).st env := hr.of_ext hext hok (fun _ _ h => h)
             have hok5 : ScopeOk ctx (body (push ctx st).1 st4).st := fun f hf' => Nat.lt_of_lt_of_le (hok f hf') hext.len
             have hi := ih (i + 1) ctx _ env hr5 hok5 hrest
             rw [hctx1] at hi hbytes
@@ -534,66 +787,369 @@ theorem find_cons (B : Spec.Eval.Binds) (key : Bytes) (v : Val) (k : Bytes) :
     have h2 : (k == key) = false := by simpa using fun e => h e.symm
     simp [h1, h2]
 
-omit hob hcall hreg hcs in
-/-- the value params of a call: evaluated in the caller's environment, bound in the callee's param frame -/
-theorem params_agree : (ps : ParamList) → paramsFrag ps = true →
-    ∀ (cd ctx : Scope) (st : St) (env : Spec.Eval.Env) (B0 : Spec.Eval.Binds),
-    Rel g ctx st env → Own cd st → FrameRel st.heap cd B0 → (∀ f ∈ ctx, f.ref ≠ top cd) → ScopeOk ctx st →
-    match Spec.Eval.renderParams reg hasBundle esc entry scall ps env with
-    | .val R => (execParams g esc call ps cd ctx st).cls = .ok ∧
-        FrameRel (execParams g esc call ps cd ctx st).st.heap cd (R ++ B0) ∧
-        (execParams g esc call ps cd ctx st).st.out = st.out
-    | .error => (execParams g esc call ps cd ctx st).cls = .err
-    | .unspec => True
-  | .nil, _, cd, ctx, st, env, B0, _, _, hfr, _, _ => by
-    rw [Spec.Eval.renderParams, execParams]
-    exact ⟨rfl, by simpa using hfr, rfl⟩
-  | .content _ _ _ _, hf, _, _, _, _, _, _, _, _, _, _ => by simp [paramsFrag] at hf
-  | .value _ key e rest, hf, cd, ctx, st, env, B0, hr, owncd, hfr, hne, hok => by
-    simp only [paramsFrag, Bool.and_eq_true] at hf
-    obtain ⟨h1, h2⟩ := evalIn_sim hr e hf.1
-    rw [Spec.Eval.renderParams, execParams]
-    cases hv : Spec.Eval.eval env e with
-    | unspec => simp [Spec.Eval.Out.bind]
-    | error => simp [Spec.Eval.Out.bind, h2 hv]
-    | val v =>
-      obtain ⟨mv, st1, he, habs, hsc, hheap, hout⟩ := h1 v hv
-      have e1 : Ext (fun _ => False) st st1 := evalIn_ext _ he
-      have own1 := owncd.ext e1
-      simp only [Spec.Eval.Out.bind, he]
-      cases hs : Eval.set cd st1 key mv with
-      | none => exact absurd hs (set_ne_none own1)
-      | some st2 =>
-        simp only
-        have e2 := set_ext own1 hs
-        have hok1 : ScopeOk ctx st1 := fun f hf' => by rw [hheap]; exact hok f hf'
-        have hr2 : Rel g ctx st2 env :=
-          (hr.of_heap hheap).of_lookup (lookup_ext_W e2 ctx hok1 (fun f hf' h => hne f hf' h))
-        have hfr2 : FrameRel st2.heap cd ((key, v) :: B0) := by
-          intro k
-          rw [lookup_set own1 hs k, find_cons]
-          have := hfr k
-          rw [← hheap] at this
-          split
-          · exact ⟨by rw [habs]; rfl, hsc⟩
-          · exact this
-        have hok2 : ScopeOk ctx st2 := fun f hf' => Nat.lt_of_lt_of_le (hok1 f hf') e2.len
-        have ih := params_agree rest hf.2 cd ctx st2 env ((key, v) :: B0) hr2 (own1.ext e2) hfr2 hne hok2
-        cases hrr : Spec.Eval.renderParams reg hasBundle esc entry scall rest env with
-        | unspec => simp
-        | error => rw [hrr] at ih; simpa using ih
-        | val R =>
-          rw [hrr] at ih
-          simp only at ih ⊢
-          refine ⟨ih.1, ?_, by rw [ih.2.2, Refine.set_out hs, hout]⟩
-          have : (R ++ [(key, v)]) ++ B0 = R ++ (key, v) :: B0 := by simp
-          rw [this]; exact ih.2.1
+/-- the params of a call against the specification's: the callee's data scope `cd` binds them over `B` -/
+def AgreeP (coll : Bytes → Bool) (cd : Scope) (st : St) (B : Spec.Eval.Binds) (r : R) : Out Spec.Eval.Binds → Prop
+  | .val R => r.cls = .ok ∧ FrameRel coll r.st.heap cd (R ++ B) ∧ r.st.out = st.out
+  | .error => r.cls = .err
+  | .unspec => True
 
-include hob hcall hreg hcs in
+/-- the evaluation of `E` agrees with the specification's: the same value (up to identities) — a scalar, a
+    list of scalars or a map of scalars —, no change of the heap or of the output -/
+def ValSim (coll : Bytes → Bool) (g : GEnv) (E : Expr) (ctx : Scope) (st : St) (env : Spec.Eval.Env) : Prop :=
+  (∀ v, Spec.Eval.eval env E = .val v → ∃ mv st1, evalIn g E ctx st = some (mv, st1) ∧ absV mv = v ∧
+      Shallow mv = true ∧ st1.heap = st.heap ∧ st1.out = st.out) ∧
+  (Spec.Eval.eval env E = .error → evalIn g E ctx st = none)
+
+/-- a list-valued evaluation (a list literal, a range) in the `ValSim` form -/
+theorem ValSim.of_list {E : Expr} {ctx : Scope} {st : St} {env : Spec.Eval.Env}
+    (h : (∀ v, Spec.Eval.eval env E = .val v → ∃ id mvs st1, evalIn g E ctx st = some (.list id mvs, st1) ∧
+          v = .list (absL mvs) ∧ (∀ x ∈ mvs, Scalar x = true) ∧ st1.heap = st.heap ∧ st1.out = st.out) ∧
+        (Spec.Eval.eval env E = .error → evalIn g E ctx st = none)) : ValSim coll g E ctx st env := by
+  refine ⟨fun v hv => ?_, h.2⟩
+  obtain ⟨id, mvs, st1, he, hveq, hsc, hh, ho⟩ := h.1 v hv
+  exact ⟨.list id mvs, st1, he, by rw [hveq]; rfl, by simpa [Shallow] using hsc, hh, ho⟩
+
+/-- a variable (not `$ij`, not a loop helper): whatever it holds -/
+theorem ValSim.of_var {ctx : Scope} {st : St} {env : Spec.Eval.Env} (hr : Rel coll g entry ctx st env) (p : Nat) (key : Bytes)
+    (hk : (key == sIj) = false) (hh : C01.isHelper key = false) : ValSim coll g (.dataRef p key .nil) ctx st env := by
+  have hk2 : (key == Spec.Eval.sIj) = false := hk
+  have hS : Spec.Eval.eval env (.dataRef p key .nil) = .val (env.lookup key) := by
+    rw [Spec.Eval.eval]; simp only [hk2, Bool.false_eq_true, if_false, Spec.Eval.evalAcc]
+  have hM : evalIn g (.dataRef p key .nil) ctx st = some (lookup st.heap ctx key, st) := by
+    simp [evalIn, evalE, hk, evalAccesses, eenv]
+  rw [ValSim, hS]
+  refine ⟨fun v hv => ?_, fun h => by simp at h⟩
+  simp only [Out.val.injEq] at hv
+  exact ⟨_, st, hM, by rw [← hv]; exact hr.base.vars key hh, hr.shallow key, rfl, rfl⟩
+
+/-- what a loop ranges over, in the `ValSim` form -/
+theorem listFrag_sim {ctx : Scope} {st : St} {env : Spec.Eval.Env} (hr : Rel coll g entry ctx st env) (E : Expr)
+    (hf : listFrag coll E = true) : ValSim coll g E ctx st env := by
+  cases E with
+  | list p items => exact ValSim.of_list g (evalIn_list_sim hr p items (by simpa [listFrag] using hf))
+  | func p name args =>
+    simp only [listFrag, Bool.and_eq_true, beq_iff_eq] at hf
+    obtain ⟨hn, ha⟩ := hf
+    subst hn
+    exact ValSim.of_list g (evalIn_range_sim hr p args ha)
+  | dataRef p key acc =>
+    cases acc with
+    | nil =>
+      simp only [listFrag, Bool.and_eq_true, bne_iff_ne, ne_eq, Bool.not_eq_true'] at hf
+      exact ValSim.of_var g entry hr p key (by simpa using hf.1) hf.2
+    | cons _ _ => simp [listFrag] at hf
+  | _ => simp [listFrag] at hf
+
+/-- a map-valued evaluation against the specification's: the same bindings, scalars -/
+def MapSim (v : Val) : Value → Prop
+  | .map _ kvs => ∃ B, v = .map B ∧ (∀ k, Spec.Eval.find B k = (Frame.find kvs k).map absV) ∧ ∀ kv ∈ kvs, Scalar kv.2 = true
+  | _ => ∀ B, v ≠ .map B
+
+/-- the evaluation of a {call}'s data expression agrees with the specification's -/
+def DataSim (g : GEnv) (d : Expr) (ctx : Scope) (st : St) (env : Spec.Eval.Env) : Prop :=
+  (∀ v, Spec.Eval.eval env d = .val v → ∃ mv st1, evalIn g d ctx st = some (mv, st1) ∧ MapSim v mv ∧
+      st1.heap = st.heap ∧ st1.out = st.out) ∧
+  (Spec.Eval.eval env d = .error → evalIn g d ctx st = none)
+
+theorem DataSim.of_valSim {d : Expr} {ctx : Scope} {st : St} {env : Spec.Eval.Env}
+    (h : ValSim coll g d ctx st env) : DataSim g d ctx st env := by
+  refine ⟨fun v hv => ?_, h.2⟩
+  obtain ⟨mv, st1, he, habs, hsh, hh, ho⟩ := h.1 v hv
+  refine ⟨mv, st1, he, ?_, hh, ho⟩
+  cases mv with
+  | map id kvs =>
+    exact ⟨absK kvs, by rw [← habs]; rfl, find_absK kvs, by simpa [Shallow] using hsh⟩
+  | _ => intro B hB; rw [← habs] at hB; simp [absV] at hB
+
+/-- what a {call} passes as data, in the `DataSim` form -/
+theorem dataFrag_sim {ctx : Scope} {st : St} {env : Spec.Eval.Env} (hr : Rel coll g entry ctx st env) (d : Expr)
+    (hf : dataFrag coll d = true) : DataSim g d ctx st env := by
+  cases d with
+  | map p items =>
+    have h := evalMapItems_sim hr.base items (by simpa [dataFrag] using hf) st.next
+    rw [DataSim, Spec.Eval.eval]
+    refine ⟨fun v hv => ?_, fun herr => ?_⟩
+    · obtain ⟨B, hv1, hv⟩ := C01.bind_val hv
+      obtain ⟨kvs, n', h1, h2, h3⟩ := h.1 B hv1
+      simp only [Out.val.injEq] at hv
+      refine ⟨.map n' kvs, { st with next := n' + 1 }, by simp [evalIn, evalE, h1], ⟨B, hv.symm, h2, h3⟩, rfl, rfl⟩
+    · rcases C01.bind_err herr with h' | ⟨vs, _, h'⟩
+      · simp [evalIn, evalE, h.2 h']
+      · simp at h'
+  | dataRef p key acc =>
+    cases acc with
+    | nil =>
+      simp only [dataFrag, Bool.and_eq_true, bne_iff_ne, ne_eq, Bool.not_eq_true'] at hf
+      exact DataSim.of_valSim g (ValSim.of_var g entry hr p key (by simpa using hf.1) hf.2)
+    | cons _ _ => simp [dataFrag] at hf
+  | _ => simp [dataFrag] at hf
+
+/-- a list of expressions (the arguments of a directive), left to right -/
+theorem evalList_sim {ctx : Scope} {env : Spec.Eval.Env} : ∀ (es : List Expr), es.all (frag coll) = true → ∀ (st : St),
+    Rel coll g entry ctx st env →
+    (∀ vs, Spec.Eval.evalAll env es = .val vs → ∃ mvs st1, evalList g ctx es st = some (mvs, st1) ∧ absL mvs = vs ∧
+        (∀ x ∈ mvs, Scalar x = true) ∧ st1.heap = st.heap ∧ st1.out = st.out) ∧
+    (Spec.Eval.evalAll env es = .error → evalList g ctx es st = none)
+  | [], _, st, _ => by
+    rw [Spec.Eval.evalAll, evalList]
+    exact ⟨fun vs h => by simp only [Out.val.injEq] at h; exact ⟨[], st, rfl, by rw [← h]; rfl, by simp, rfl, rfl⟩, fun h => by simp at h⟩
+  | e :: r, hf, st, hr => by
+    simp only [List.all_cons, Bool.and_eq_true] at hf
+    obtain ⟨h1, h2⟩ := evalIn_sim hr e hf.1
+    rw [Spec.Eval.evalAll, evalList]
+    refine ⟨fun vs hv => ?_, fun herr => ?_⟩
+    · obtain ⟨v, hv1, hv⟩ := C01.bind_val hv
+      obtain ⟨vr, hv2, hv⟩ := C01.bind_val hv
+      obtain ⟨mv, st1, he, habs, hsc, hh, ho⟩ := h1 v hv1
+      obtain ⟨mvs, st2, hes, habs2, hsc2, hh2, ho2⟩ := (evalList_sim r hf.2 st1 (hr.of_heap hh)).1 vr hv2
+      simp only [Out.val.injEq] at hv
+      rw [he]; simp only [hes]
+      refine ⟨mv :: mvs, st2, rfl, by rw [← hv, absL, habs, habs2], ?_, by rw [hh2, hh], by rw [ho2, ho]⟩
+      intro x hx
+      rcases List.mem_cons.mp hx with rfl | hx
+      · exact hsc
+      · exact hsc2 x hx
+    · rcases C01.bind_err herr with h | ⟨v, hv1, herr⟩
+      · rw [h2 h]
+      · obtain ⟨mv, st1, he, _, _, hh, _⟩ := h1 v hv1
+        rw [he]
+        rcases C01.bind_err herr with h | ⟨vr, _, h⟩
+        · simp only [(evalList_sim r hf.2 st1 (hr.of_heap hh)).2 h]
+        · simp at h
+
+include hdir in
+/-- the directive loop of a print: left to right, an unknown name or a wrong number of arguments fails,
+    a cancelling directive clears the escape flag -/
+theorem runDirectives_sim {ctx : Scope} {env : Spec.Eval.Env} : ∀ (ds : List Directive), dirsFrag coll ds = true →
+    ∀ (mv : Value) (esc : Bool) (st : St), Scalar mv = true → Rel coll g entry ctx st env →
+    (∀ r, Spec.Eval.runDirs dsem env ds (absV mv) esc = .val r → ∃ mv' st2,
+        runDirectives g ctx ds mv esc st = some (mv', r.2, st2) ∧ absV mv' = r.1 ∧ Scalar mv' = true ∧
+        st2.heap = st.heap ∧ st2.out = st.out) ∧
+    (Spec.Eval.runDirs dsem env ds (absV mv) esc = .error → runDirectives g ctx ds mv esc st = none)
+  | [], _, mv, esc, st, hsc, _ => by
+    rw [Spec.Eval.runDirs, runDirectives]
+    exact ⟨fun r h => by simp only [Out.val.injEq] at h; subst h; exact ⟨mv, st, rfl, rfl, hsc, rfl, rfl⟩, fun h => by simp at h⟩
+  | d :: ds, hf, mv, esc, st, hsc, hr => by
+    simp only [dirsFrag, List.all_cons, Bool.and_eq_true] at hf
+    have ihds := runDirectives_sim (ctx := ctx) (env := env) ds hf.2
+    cases hD : dsem with
+    | none => rw [Spec.Eval.runDirs]; exact ⟨fun r h => by simp at h, fun h => by simp at h⟩
+    | some D =>
+      rw [hD] at ihds
+      rw [Spec.Eval.runDirs, runDirectives]
+      obtain ⟨hlk, hF⟩ := hdir D hD
+      simp only [hlk d.name]
+      cases hL : Directives.lookup g.tbl d.name with
+      | none => exact ⟨fun r h => by simp at h, fun _ => rfl⟩
+      | some e =>
+        simp only [Option.map_some, Directives.checkNumArgs]
+        by_cases har : (!e.arities.any (· == d.args.length)) = true
+        · simp only [har, if_true]
+          exact ⟨fun r h => by simp at h, fun _ => trivial⟩
+        · simp only [har, Bool.false_eq_true, if_false]
+          obtain ⟨ha1, ha2⟩ := evalList_sim g entry d.args hf.1 st hr
+          refine ⟨fun r hv => ?_, fun herr => ?_⟩
+          · obtain ⟨args, hv1, hv⟩ := C01.bind_val hv
+            obtain ⟨v', hv2, hv⟩ := C01.bind_val hv
+            obtain ⟨margs, st1, hes, habs, hscs, hh, ho⟩ := ha1 args hv1
+            subst habs
+            obtain ⟨mv', hap, habs', hsc'⟩ := (hF e.impl mv margs hsc hscs).1 v' hv2
+            subst habs'
+            obtain ⟨mv2, st2, hrun, h3, h4, h5, h6⟩ :=
+              (ihds mv' (if e.cancel then false else esc) st1 hsc' (hr.of_heap hh)).1 r hv
+            simp only [hes, hap]
+            exact ⟨mv2, st2, hrun, h3, h4, by rw [h5, hh], by rw [h6, ho]⟩
+          · rcases C01.bind_err herr with h | ⟨args, hv1, herr⟩
+            · simp only [ha2 h]
+            · obtain ⟨margs, st1, hes, habs, hscs, hh, ho⟩ := ha1 args hv1
+              subst habs
+              simp only [hes]
+              rcases C01.bind_err herr with h | ⟨v', hv2, herr⟩
+              · simp only [(hF e.impl mv margs hsc hscs).2 h]
+              · obtain ⟨mv', hap, habs', hsc'⟩ := (hF e.impl mv margs hsc hscs).1 v' hv2
+                subst habs'
+                simp only [hap]
+                exact (ihds mv' (if e.cancel then false else esc) st1 hsc' (hr.of_heap hh)).2 herr
+
+include hcall in
+/-- {foreach} / {for}, given the evaluation of its list (`hE`), its body (`hb`) and its {ifempty} block -/
+theorem forc_core (p0 : Nat) (var : Bytes) (E : Expr) (body : Block) (ifE : Option Block)
+    (ctx : Scope) (st : St) (env : Spec.Eval.Env) (hr : Rel coll g entry ctx st env) (hok : ScopeOk ctx st)
+    (hb : ∀ ctx' st' env', Rel coll g entry ctx' st' env' → Own ctx' st' → ScopeOk ctx' st' →
+        ∃ o : Spec.Eval.ROut, Agree coll g entry ctx' st' (execBody g esc call body ctx' st') o ∧
+          Spec.Eval.renderBlock reg hasBundle esc entry scall dsem body env' = o.bind fun q => .val q.1)
+    (hemp : ∀ bE, ifE = some bE → ∀ st1, Rel coll g entry ctx st1 env → ScopeOk ctx st1 →
+        AgreeB coll g entry ctx st1 env (walkBlockOf (execBody g esc call bE) ctx st1)
+          (Spec.Eval.renderBlock reg hasBundle esc entry scall dsem bE env))
+    (hE : ValSim coll g E ctx st env) :
+    Agree coll g entry ctx st (execCmd g esc call (.forc p0 var E body ifE) ctx st)
+      (Spec.Eval.renderCmd reg hasBundle esc entry scall dsem (.forc p0 var E body ifE) env) := by
+  obtain ⟨h1, h2⟩ := hE
+  rw [execCmd, Spec.Eval.renderCmd.eq_def]
+  simp only
+  cases hv : Spec.Eval.eval env E with
+  | unspec => simp [Spec.Eval.Out.bind, Agree]
+  | error => simp [Spec.Eval.Out.bind, Agree, h2 hv]
+  | val v =>
+    obtain ⟨mv, st1, he, hveq, hsh, hheap, hout⟩ := h1 v hv
+    subst hveq
+    have hr1 : Rel coll g entry ctx st1 env := hr.of_heap hheap
+    have hok1 : ScopeOk ctx st1 := fun f hf' => by rw [hheap]; exact hok f hf'
+    simp only [Spec.Eval.Out.bind, he]
+    cases mv with
+    | list id mvs =>
+      have hsc : ∀ x ∈ mvs, Scalar x = true := by simpa [Shallow] using hsh
+      simp only [absV]
+      cases mvs with
+      | nil =>
+        simp only [List.isEmpty_nil, if_true, absL]
+        cases ifE with
+        | none => exact ⟨rfl, by rw [hout]; simp, hr1⟩
+        | some bE =>
+          have hbe := hemp bE rfl st1 hr1 hok1
+          simp only
+          cases hve : Spec.Eval.renderBlock reg hasBundle esc entry scall dsem bE env with
+          | unspec => simp [Spec.Eval.Out.bind, Agree]
+          | error => rw [hve] at hbe; simpa [Spec.Eval.Out.bind, Agree, AgreeB] using hbe
+          | val out =>
+            rw [hve] at hbe
+            simp only [AgreeB] at hbe
+            exact ⟨hbe.1, by rw [hbe.2.1, hout], hbe.2.2⟩
+      | cons x rest =>
+        simp only [List.isEmpty_cons, Bool.false_eq_true, if_false, absL]
+        have hl := loop_agree g entry (execBody g esc call body) _ (execBody_good g esc call hcall _) hb var
+          (((x :: rest).length : Int) - 1) ((absV x :: absL rest).length - 1) (x :: rest) 0 ctx st1 env hr1 hok1 hsc
+        rw [absL] at hl
+        cases hlv : Spec.Eval.loopSpec (Spec.Eval.renderBlock reg hasBundle esc entry scall dsem body) env var
+            ((absV x :: absL rest).length - 1) (absV x :: absL rest) 0 with
+        | unspec => simp [Agree]
+        | error => rw [hlv] at hl; simpa [Agree, AgreeB] using hl
+        | val out =>
+          rw [hlv] at hl
+          simp only [AgreeB] at hl
+          exact ⟨hl.1, by rw [hl.2.1, hout], hl.2.2⟩
+    | undefined => simp [absV, Agree]
+    | null => simp [absV, Agree]
+    | bool _ => simp [absV, Agree]
+    | int _ => simp [absV, Agree]
+    | float _ => simp [absV, Agree]
+    | str _ => simp [absV, Agree]
+    | map _ _ => simp [absV, Agree]
+
+/-- what `evalCall` does once the callee's data scope `cd` is made: the params into `cd`, enter, the callee -/
+def callRest (g : GEnv) (esc : Bool) (call : Registry.Tmpl → Run) (callee : Registry.Tmpl) (ps : ParamList)
+    (cd ctx : Scope) (st1 : St) : R :=
+  let r := execParams g esc call ps cd ctx st1
+  match r.cls with
+  | .ok =>
+    match enter cd r.st with
+    | none => ⟨.err, r.ctx, r.st⟩
+    | some (cctx, st2) => ⟨(call callee cctx st2).cls, r.ctx, atNode (call callee cctx st2).st r.st.node⟩
+  | _ => r
+
+omit hob hcall hreg hcs in
+theorem Agree.of_out {ctx : Scope} {st st0 : St} {r : R} {o : Spec.Eval.ROut} (h : st0.out = st.out)
+    (ha : Agree coll g entry ctx st0 r o) : Agree coll g entry ctx st r o := by
+  cases o with
+  | unspec => trivial
+  | error => exact ha
+  | val q => obtain ⟨out, env'⟩ := q; simp only [Agree] at ha ⊢; rw [← h]; exact ha
+
+include hcall hcs in
+omit hob hreg in
+/-- a {call} from the point where the callee's data scope `cd = ⟨n, false⟩ :: sc` (a fresh param frame over
+    the passed frames `sc`, binding `B`) is made: the params overlay `B`, the callee runs on exactly that -/
+theorem call_core (callee : Registry.Tmpl) (hmem : callee ∈ reg) (ps : ParamList)
+    (ctx : Scope) (st0 : St) (env : Spec.Eval.Env) (n : Nat) (sc : Scope) (B : Spec.Eval.Binds)
+    (own0 : Own (⟨n, false⟩ :: sc) st0)
+    (hn : n < st0.heap.length) (hsc0 : ∀ x ∈ sc, x.ref < st0.heap.length)
+    (hp : AgreeP coll (⟨n, false⟩ :: sc) st0 B (execParams g esc call ps (⟨n, false⟩ :: sc) ctx st0)
+      (Spec.Eval.renderParams reg hasBundle esc entry scall dsem ps env))
+    (hglob : ∀ k, match Frame.find g.globals k with
+      | some v => Spec.Eval.find env.globals k = some (absV v) ∧ Scalar v = true
+      | none => Spec.Eval.find env.globals k = none)
+    (hrel : Rel coll g entry ctx (callRest g esc call callee ps (⟨n, false⟩ :: sc) ctx st0).st env) :
+    Agree coll g entry ctx st0 (callRest g esc call callee ps (⟨n, false⟩ :: sc) ctx st0)
+      ((Spec.Eval.renderParams reg hasBundle esc entry scall dsem ps env).bind fun R =>
+        (scall callee { entry := R ++ B, ij := env.ij, globals := env.globals }).bind fun out => .val (out, env)) := by
+  have hpg := execParams_good g esc call hcall ps (⟨n, false⟩ :: sc) ctx st0 own0
+  unfold callRest at hrel ⊢
+  simp only at hrel ⊢
+  cases hpv : Spec.Eval.renderParams reg hasBundle esc entry scall dsem ps env with
+  | unspec => simp [Agree, Spec.Eval.Out.bind]
+  | error => rw [hpv] at hp; simp only [AgreeP] at hp; simp [Agree, Spec.Eval.Out.bind, hp]
+  | val R =>
+    rw [hpv] at hp
+    simp only [AgreeP] at hp
+    obtain ⟨hpc, hpf, hpo⟩ := hp
+    simp only [hpc, hpg.ctx_eq hpc, Spec.Eval.Out.bind] at hrel ⊢
+    obtain ⟨cctx, s2, hent, ownc, e3, htopc, hcctx⟩ := enter_cons ⟨n, false⟩ sc
+      (execParams g esc call ps (⟨n, false⟩ :: sc) ctx st0).st
+    rw [hent] at hrel ⊢
+    simp only at hrel ⊢
+    generalize hP : (execParams g esc call ps (⟨n, false⟩ :: sc) ctx st0).st = P at *
+    have hlen : st0.heap.length ≤ P.heap.length := by rw [← hP]; exact hpg.ext.len
+    have hcell : n < P.heap.length := Nat.lt_of_lt_of_le hn hlen
+    have hsc : ∀ x ∈ (⟨n, true⟩ :: sc : Scope), x.ref < P.heap.length := by
+      intro x hx
+      simp only [List.mem_cons] at hx
+      rcases hx with rfl | hx
+      · exact hcell
+      · exact Nat.lt_of_lt_of_le (hsc0 x hx) hlen
+    have hs2len : P.heap.length ≤ s2.heap.length := (e3 (fun _ => False)).len
+    have hs2 : s2.heap.length = P.heap.length + 1 := by
+      simp only [enter, push, Option.some.injEq, Prod.mk.injEq] at hent; rw [← hent.2]; simp
+    have hokc : ScopeOk cctx s2 := by
+      intro f hf'
+      rw [hcctx] at hf'
+      simp only [List.mem_cons] at hf'
+      rcases hf' with rfl | hf'
+      · simp only; omega
+      · exact Nat.lt_of_lt_of_le (hsc f (by simpa using hf')) hs2len
+    have hlk : ∀ k, lookup s2.heap cctx k = lookup P.heap (⟨n, false⟩ :: sc) k := by
+      intro k
+      have hpe := hent
+      simp only [enter, Option.some.injEq] at hpe
+      have hc1 : cctx = (push (⟨n, true⟩ :: sc) P).1 := by rw [hpe]
+      have hs2' : s2 = (push (⟨n, true⟩ :: sc) P).2 := by rw [hpe]
+      rw [hc1, hs2', lookup_push (⟨n, true⟩ :: sc) P hsc k]
+      simp [lookup]
+    have hrc : Rel coll g (R ++ B) cctx s2 { vars := R ++ B, loops := [], ij := env.ij, globals := env.globals } := by
+      refine ⟨⟨fun k _ => ?_, fun k hc => ?_, hglob⟩, fun k => ?_, ?_⟩
+      · show absV (lookup s2.heap cctx k) = _
+        rw [hlk k]; exact (hpf k).1
+      · show Scalar (lookup s2.heap cctx k) = true
+        rw [hlk k]; exact (hpf k).2.1 hc
+      · rw [hlk k]; exact (hpf k).2.2
+      · -- the callee's entry data: its param frame over the passed frames
+        refine ⟨⟨_, false⟩, (⟨n, true⟩ :: sc), (⟨n, true⟩ :: sc), hcctx, rfl, by simp [alldata], ?_, ?_, ?_⟩
+        · intro x hx e
+          have := hsc x hx; simp only at e; omega
+        · intro x hx
+          exact Nat.lt_of_lt_of_le (hsc x hx) hs2len
+        · intro k
+          have hl2 : lookup s2.heap (⟨n, true⟩ :: sc) k = lookup P.heap (⟨n, false⟩ :: sc) k := by
+            rw [lookup_ext_W (e3 (fun _ => False)) (⟨n, true⟩ :: sc) hsc (fun _ _ h => h) k]
+            simp [lookup]
+          rw [hl2]; exact hpf k
+    have hct := hcs callee hmem cctx s2 { entry := R ++ B, ij := env.ij, globals := env.globals } hrc ownc hokc
+    have hout2 : s2.out = st0.out := by
+      simp only [enter, push, Option.some.injEq, Prod.mk.injEq] at hent
+      rw [← hent.2]; exact hpo
+    cases hsv : scall callee { entry := R ++ B, ij := env.ij, globals := env.globals } with
+    | unspec => simp [Agree]
+    | error => rw [hsv] at hct; simpa [Agree, AgreeT] using hct
+    | val out =>
+      rw [hsv] at hct
+      simp only [AgreeT] at hct
+      simp only [Agree]
+      exact ⟨hct.1, by show bufBytes (call callee cctx s2).st.out = _; rw [hct.2, hout2], hrel⟩
+
+include hob hcall hreg hmsg hdir hcs in
 mutual
-theorem cmd_agree : (c : Cmd) → cfrag c = true → ∀ (ctx : Scope) (st : St) (env : Spec.Eval.Env),
-    Rel g ctx st env → Own ctx st → ScopeOk ctx st →
-    Agree g ctx st (execCmd g esc call c ctx st) (Spec.Eval.renderCmd reg hasBundle esc entry scall c env)
+theorem cmd_agree : (c : Cmd) → cfrag coll c = true → ∀ (ctx : Scope) (st : St) (env : Spec.Eval.Env),
+    Rel coll g entry ctx st env → Own ctx st → ScopeOk ctx st →
+    Agree coll g entry ctx st (execCmd g esc call c ctx st) (Spec.Eval.renderCmd reg hasBundle esc entry scall dsem c env)
   | .rawText _ t, _, ctx, st, env, hr, _, _ => by
     rw [execCmd, Spec.Eval.renderCmd]
     exact ⟨rfl, bufBytes_write st t, hr.of_heap rfl⟩
@@ -604,42 +1160,58 @@ theorem cmd_agree : (c : Cmd) → cfrag c = true → ∀ (ctx : Scope) (st : St)
     rw [execCmd, Spec.Eval.renderCmd]
     exact ⟨rfl, by simp, hr⟩
   | .print pos arg dirs, hf, ctx, st, env, hr, _, _ => by
-    simp only [cfrag, Bool.and_eq_true, List.isEmpty_iff] at hf
-    obtain ⟨hd, hfa⟩ := hf
-    subst hd
+    simp only [cfrag, Bool.and_eq_true] at hf
+    obtain ⟨hfa, hfd⟩ := hf
     rw [execCmd]
     unfold evalPrint
     refine Agree.of_atNode (p := Expr.pos arg) ?_
-    have hr0 : Rel g ctx (atNode st (Expr.pos arg)) env := hr.of_heap rfl
+    have hr0 : Rel coll g entry ctx (atNode st (Expr.pos arg)) env := hr.of_heap rfl
     clear hr
     generalize atNode st (Expr.pos arg) = st at hr0 ⊢
     have hr := hr0
     obtain ⟨h1, h2⟩ := evalIn_sim hr arg hfa
     rw [Spec.Eval.renderCmd]
-    simp only [List.isEmpty_nil, Bool.not_true, Bool.false_eq_true, if_false]
-    unfold evalPrintAt
-    cases hv : Spec.Eval.eval env arg with
-    | unspec => simp [Spec.Eval.Out.bind, Agree]
-    | error => simp [Spec.Eval.Out.bind, Agree, h2 hv]
-    | val v =>
-      obtain ⟨mv, st1, he, habs, hsc, hheap, hout⟩ := h1 v hv
-      obtain ⟨s1, s2⟩ := show_scalar mv hsc
-      rw [habs] at s1 s2
-      simp only [Spec.Eval.Out.bind]
-      cases hs : Spec.Eval.showVal v with
-      | unspec => simp [Agree]
+    by_cases hU : (!dirs.isEmpty && dsem.isNone) = true
+    · simp [hU, Agree]
+    · simp only [hU, Bool.false_eq_true, if_false]
+      cases hv : Spec.Eval.eval env arg with
+      | unspec => simp [Spec.Eval.Out.bind, Agree]
       | error =>
-        have hstr := s2 hs
-        simp only [Agree, he]
-        cases mv <;> simp_all [hob, obligDirs, runDirectives]
-      | val s =>
-        have hstr := s1 s hs
-        have hne : mv ≠ .undefined := by
-          intro e; subst e; simp [str, Value.render, Value.toString] at hstr
-        simp only [Agree, he]
-        cases mv <;> simp_all [hob, obligDirs, runDirectives] <;>
-          (cases esc <;> simp [bufBytes_write, bufBytes_writeAll, escChunks_flatten, hout] <;>
-            exact hr.of_heap (by simp [writeAll_heap, write, hheap]))
+        simp only [Spec.Eval.Out.bind, Agree]
+        unfold evalPrintAt; simp [h2 hv]
+      | val v =>
+        obtain ⟨mv, st1, he, habs, hsc, hheap, hout⟩ := h1 v hv
+        subst habs
+        simp only [Spec.Eval.Out.bind]
+        by_cases hund : mv = .undefined
+        · subst hund
+          simp only [absV, Spec.Eval.isUndef, if_true, Agree]
+          exact evalPrintAt_undef he
+        · have hnu : Spec.Eval.isUndef (absV mv) = false := by cases mv <;> simp_all [absV, Spec.Eval.isUndef]
+          simp only [hnu, Bool.false_eq_true, if_false]
+          have hd := runDirectives_sim g entry dsem hdir dirs hfd mv esc st1 hsc (hr.of_heap hheap)
+          have hdl : dirs ++ obligDirs pos g.oblig = dirs := by rw [hob]; simp [obligDirs]
+          cases hrd : Spec.Eval.runDirs dsem env dirs (absV mv) esc with
+          | unspec => simp [Agree]
+          | error =>
+            simp only [Agree]
+            exact evalPrintAt_dirs_none he (by rw [hdl]; exact hd.2 hrd)
+          | val r =>
+            obtain ⟨mv', st2, hrun, habs', hsc', hh2, ho2⟩ := hd.1 r hrd
+            obtain ⟨s1, s2⟩ := show_scalar mv' hsc'
+            rw [habs'] at s1 s2
+            simp only
+            cases hs : Spec.Eval.showVal r.1 with
+            | unspec => simp [Agree]
+            | error =>
+              simp only [Agree]
+              exact evalPrintAt_str_none he (by rw [hdl]; exact hrun) (s2 hs)
+            | val s =>
+              rw [evalPrintAt_ok he hund (by rw [hdl]; exact hrun) (s1 s hs)]
+              simp only [Agree]
+              refine ⟨trivial, ?_, ?_⟩
+              · cases r.2 <;> simp [bufBytes_write, bufBytes_writeAll, escChunks_flatten, ho2, hout]
+              · cases r.2 <;> exact hr.of_heap (by simp [writeAll_heap, write, hh2, hheap])
   | .css _ none suffix, _, ctx, st, env, hr, _, _ => by
     rw [execCmd, Spec.Eval.renderCmd]
     exact ⟨rfl, bufBytes_write st suffix, hr.of_heap rfl⟩
@@ -666,7 +1238,7 @@ theorem cmd_agree : (c : Cmd) → cfrag c = true → ∀ (ctx : Scope) (st : St)
     rw [execCmd, Spec.Eval.renderCmd]
     have hb := body_agree body hf ctx { st with out := [] } env (hr.of_heap rfl) hok
     unfold renderBlockOf
-    cases hv : Spec.Eval.renderBlock reg hasBundle esc entry scall body env with
+    cases hv : Spec.Eval.renderBlock reg hasBundle esc entry scall dsem body env with
     | unspec => simp [Spec.Eval.Out.bind, Agree]
     | error => rw [hv] at hb; simp only [AgreeB] at hb; simp [Spec.Eval.Out.bind, Agree, hb]
     | val out =>
@@ -678,7 +1250,7 @@ theorem cmd_agree : (c : Cmd) → cfrag c = true → ∀ (ctx : Scope) (st : St)
     simp only [cfrag] at hf
     rw [execCmd, Spec.Eval.renderCmd]
     have hc := conds_agree conds hf ctx st env hr hown hok
-    cases hv : Spec.Eval.renderConds reg hasBundle esc entry scall conds env with
+    cases hv : Spec.Eval.renderConds reg hasBundle esc entry scall dsem conds env with
     | unspec => simp [Spec.Eval.Out.bind, Agree]
     | error => rw [hv] at hc; simpa [Spec.Eval.Out.bind, Agree, AgreeB] using hc
     | val out => rw [hv] at hc; simpa [Spec.Eval.Out.bind, Agree, AgreeB] using hc
@@ -691,7 +1263,7 @@ theorem cmd_agree : (c : Cmd) → cfrag c = true → ∀ (ctx : Scope) (st : St)
     | error => simp [Spec.Eval.Out.bind, Agree, h2 hv]
     | val v =>
       obtain ⟨mv, st1, he, habs, hsc, hheap, hout⟩ := h1 v hv
-      have hr1 : Rel g ctx st1 env := hr.of_heap hheap
+      have hr1 : Rel coll g entry ctx st1 env := hr.of_heap hheap
       have hown1 : Own ctx st1 := hown.ext (Ext.of_heap_eq (W := fun _ => False) hheap (by
         have := evalIn_ext (fun _ => False) he; exact this.foreign))
       simp only [Spec.Eval.Out.bind, he]
@@ -699,7 +1271,7 @@ theorem cmd_agree : (c : Cmd) → cfrag c = true → ∀ (ctx : Scope) (st : St)
       | none => exact absurd hs (set_ne_none hown1)
       | some st2 =>
         simp only [Agree]
-        refine ⟨trivial, ?_, by rw [← habs]; exact Rel.set g hr1 hown1 hs hsc⟩
+        refine ⟨trivial, ?_, by rw [← habs]; exact Rel.set g entry hr1 hown1 hs hsc⟩
         have : st2.out = st1.out := by
           obtain ⟨f, r, c, hctx, _, _⟩ := hown1
           subst hctx
@@ -713,7 +1285,7 @@ theorem cmd_agree : (c : Cmd) → cfrag c = true → ∀ (ctx : Scope) (st : St)
     have hb := body_agree body hf ctx { st with out := [] } env (hr.of_heap rfl) hok
     have hgood := (renderBlockOf_good' (execBody_good g esc call hcall body) ctx st).1
     unfold renderBlockOf at hgood ⊢
-    cases hv : Spec.Eval.renderBlock reg hasBundle esc entry scall body env with
+    cases hv : Spec.Eval.renderBlock reg hasBundle esc entry scall dsem body env with
     | unspec => simp [Spec.Eval.Out.bind, Agree]
     | error => rw [hv] at hb; simp only [AgreeB] at hb; simp [Spec.Eval.Out.bind, Agree, hb]
     | val out =>
@@ -729,13 +1301,13 @@ theorem cmd_agree : (c : Cmd) → cfrag c = true → ∀ (ctx : Scope) (st : St)
       rw [hbuf]
       have hown2 : Own ctx { (walkBlockOf (execBody g esc call body) ctx { st with out := [] }).st with out := st.out } :=
         hown.ext hgood.ext
-      have hrel2 : Rel g ctx { (walkBlockOf (execBody g esc call body) ctx { st with out := [] }).st with out := st.out } env :=
+      have hrel2 : Rel coll g entry ctx { (walkBlockOf (execBody g esc call body) ctx { st with out := [] }).st with out := st.out } env :=
         hrel.of_heap rfl
       cases hs : Eval.set ctx { (walkBlockOf (execBody g esc call body) ctx { st with out := [] }).st with out := st.out } name (.str out) with
       | none => exact absurd hs (set_ne_none hown2)
       | some st2 =>
         simp only [Agree]
-        refine ⟨trivial, ?_, Rel.set g hrel2 hown2 hs rfl⟩
+        refine ⟨trivial, ?_, Rel.set g entry hrel2 hown2 hs rfl⟩
         have : st2.out = st.out := by
           obtain ⟨f, r, c, hctx', _, _⟩ := hown2
           subst hctx'
@@ -743,185 +1315,43 @@ theorem cmd_agree : (c : Cmd) → cfrag c = true → ∀ (ctx : Scope) (st : St)
           cases hh : heapSet (walkBlockOf (execBody g esc call body) (f :: r) { st with out := [] }).st.heap f.ref name (.str out) with
           | mk h' ro => rw [hh] at hs; simp only [Option.some.injEq] at hs; rw [← hs]
         simp [this]
-  | .msg .., hf, _, _, _, _, _, _ => by simp [cfrag] at hf
-  | .forc _ var (.list p items) (.mk bp cs) none, hf, ctx, st, env, hr, hown, hok => by
+  | .msg _ id _ _ _ body, hf, ctx, st, env, hr, hown, hok => by
+    simp only [cfrag] at hf
+    rw [execCmd, Spec.Eval.renderCmd]
+    cases hB : hasBundle with
+    | true => simp [Agree]
+    | false =>
+      simp only [hmsg hB, Bool.false_eq_true, if_false]
+      -- the message is one block: a fresh frame around its parts
+      have hb := block_agree g entry (walkMsgBody g esc call body)
+        (fun env' => (Spec.Eval.renderParts reg hasBundle esc entry scall dsem body env').bind fun r => .val r.1)
+        (walkMsgBody_good g esc call hcall body)
+        (fun ctx' st' env' hr' hown' hok' =>
+          ⟨Spec.Eval.renderParts reg hasBundle esc entry scall dsem body env', parts_agree body hf ctx' st' env' hr' hown' hok', rfl⟩)
+        ctx st env hr hok
+      rw [hB] at hb
+      cases hv : Spec.Eval.renderParts reg false esc entry scall dsem body env with
+      | unspec => simp [Spec.Eval.Out.bind, Agree]
+      | error => rw [hv] at hb; simpa [Spec.Eval.Out.bind, Agree, AgreeB] using hb
+      | val q => rw [hv] at hb; simpa [Spec.Eval.Out.bind, Agree, AgreeB] using hb
+  | .forc p0 var E (.mk bp cs) none, hf, ctx, st, env, hr, hown, hok => by
     simp only [cfrag, bfrag, Bool.and_eq_true] at hf
-    obtain ⟨h1, h2⟩ := evalIn_list_sim hr p items hf.1
-    have hb : ∀ ctx' st' env', Rel g ctx' st' env' → Own ctx' st' → ScopeOk ctx' st' →
-        ∃ o : Spec.Eval.ROut, Agree g ctx' st' (execBody g esc call (.mk bp cs) ctx' st') o ∧
-          Spec.Eval.renderBlock reg hasBundle esc entry scall (.mk bp cs) env' = o.bind fun q => .val q.1 := by
-      intro ctx' st' env' hr' hown' hok'
-      refine ⟨cmdsE esc reg hasBundle entry scall cs env', ?_, ?_⟩
-      · rw [execBody]; exact Agree.of_atNode (cmds_agree cs hf.2 ctx' _ env' (hr'.of_heap rfl) (hown'.atNode _) hok')
-      · rw [Spec.Eval.renderBlock]; exact renderCmds_eq esc reg hasBundle entry scall cs env'
-    rw [execCmd, Spec.Eval.renderCmd]
-    cases hv : Spec.Eval.eval env (.list p items) with
-    | unspec => simp [Spec.Eval.Out.bind, Agree]
-    | error => simp [Spec.Eval.Out.bind, Agree, h2 hv]
-    | val v =>
-      obtain ⟨id, mvs, st1, he, hveq, hsc, hheap, hout⟩ := h1 v hv
-      subst hveq
-      have hr1 : Rel g ctx st1 env := hr.of_heap hheap
-      have hok1 : ScopeOk ctx st1 := fun f hf' => by rw [hheap]; exact hok f hf'
-      simp only [Spec.Eval.Out.bind, he]
-      cases mvs with
-      | nil =>
-        simp only [List.isEmpty_nil, if_true, absL]
-        exact ⟨rfl, by rw [hout]; simp, hr1⟩
-      | cons x rest =>
-        simp only [List.isEmpty_cons, Bool.false_eq_true, if_false, absL]
-        have hl := loop_agree g (execBody g esc call (.mk bp cs)) _ (execBody_good g esc call hcall _) hb var
-          (((x :: rest).length : Int) - 1) ((absV x :: absL rest).length - 1) (x :: rest) 0 ctx st1 env hr1 hok1 hsc
-        rw [absL] at hl
-        cases hlv : Spec.Eval.loopSpec (Spec.Eval.renderBlock reg hasBundle esc entry scall (.mk bp cs)) env var
-            ((absV x :: absL rest).length - 1) (absV x :: absL rest) 0 with
-        | unspec => simp [Agree]
-        | error => rw [hlv] at hl; simpa [Agree, AgreeB] using hl
-        | val out =>
-          rw [hlv] at hl
-          simp only [AgreeB] at hl
-          exact ⟨hl.1, by rw [hl.2.1, hout], hl.2.2⟩
-  | .forc _ var (.list p items) (.mk bp cs) (some bE), hf, ctx, st, env, hr, hown, hok => by
+    refine forc_core g esc call hcall reg hasBundle entry scall dsem p0 var E (.mk bp cs) none ctx st env hr hok ?_
+      (fun bE h => by cases h) (listFrag_sim g entry hr E hf.1)
+    intro ctx' st' env' hr' hown' hok'
+    refine ⟨cmdsE esc reg hasBundle entry scall dsem cs env', ?_, ?_⟩
+    · rw [execBody]; exact Agree.of_atNode (cmds_agree cs hf.2 ctx' _ env' (hr'.of_heap rfl) (hown'.atNode _) hok')
+    · rw [Spec.Eval.renderBlock]; exact renderCmds_eq esc reg hasBundle entry scall dsem cs env'
+  | .forc p0 var E (.mk bp cs) (some bE), hf, ctx, st, env, hr, hown, hok => by
     simp only [cfrag, bfrag, Bool.and_eq_true] at hf
-    obtain ⟨h1, h2⟩ := evalIn_list_sim hr p items hf.1.1
-    have hb : ∀ ctx' st' env', Rel g ctx' st' env' → Own ctx' st' → ScopeOk ctx' st' →
-        ∃ o : Spec.Eval.ROut, Agree g ctx' st' (execBody g esc call (.mk bp cs) ctx' st') o ∧
-          Spec.Eval.renderBlock reg hasBundle esc entry scall (.mk bp cs) env' = o.bind fun q => .val q.1 := by
-      intro ctx' st' env' hr' hown' hok'
-      refine ⟨cmdsE esc reg hasBundle entry scall cs env', ?_, ?_⟩
-      · rw [execBody]; exact Agree.of_atNode (cmds_agree cs hf.1.2 ctx' _ env' (hr'.of_heap rfl) (hown'.atNode _) hok')
-      · rw [Spec.Eval.renderBlock]; exact renderCmds_eq esc reg hasBundle entry scall cs env'
-    rw [execCmd, Spec.Eval.renderCmd]
-    cases hv : Spec.Eval.eval env (.list p items) with
-    | unspec => simp [Spec.Eval.Out.bind, Agree]
-    | error => simp [Spec.Eval.Out.bind, Agree, h2 hv]
-    | val v =>
-      obtain ⟨id, mvs, st1, he, hveq, hsc, hheap, hout⟩ := h1 v hv
-      subst hveq
-      have hr1 : Rel g ctx st1 env := hr.of_heap hheap
-      have hok1 : ScopeOk ctx st1 := fun f hf' => by rw [hheap]; exact hok f hf'
-      simp only [Spec.Eval.Out.bind, he]
-      cases mvs with
-      | nil =>
-        simp only [List.isEmpty_nil, if_true, absL]
-        have hbe := body_agree bE hf.2 ctx st1 env hr1 hok1
-        cases hve : Spec.Eval.renderBlock reg hasBundle esc entry scall bE env with
-        | unspec => simp [Spec.Eval.Out.bind, Agree]
-        | error => rw [hve] at hbe; simpa [Spec.Eval.Out.bind, Agree, AgreeB] using hbe
-        | val out =>
-          rw [hve] at hbe
-          simp only [AgreeB] at hbe
-          exact ⟨hbe.1, by rw [hbe.2.1, hout], hbe.2.2⟩
-      | cons x rest =>
-        simp only [List.isEmpty_cons, Bool.false_eq_true, if_false, absL]
-        have hl := loop_agree g (execBody g esc call (.mk bp cs)) _ (execBody_good g esc call hcall _) hb var
-          (((x :: rest).length : Int) - 1) ((absV x :: absL rest).length - 1) (x :: rest) 0 ctx st1 env hr1 hok1 hsc
-        rw [absL] at hl
-        cases hlv : Spec.Eval.loopSpec (Spec.Eval.renderBlock reg hasBundle esc entry scall (.mk bp cs)) env var
-            ((absV x :: absL rest).length - 1) (absV x :: absL rest) 0 with
-        | unspec => simp [Agree]
-        | error => rw [hlv] at hl; simpa [Agree, AgreeB] using hl
-        | val out =>
-          rw [hlv] at hl
-          simp only [AgreeB] at hl
-          exact ⟨hl.1, by rw [hl.2.1, hout], hl.2.2⟩
-  | .forc _ var (.func p fname args) (.mk bp cs) none, hf, ctx, st, env, hr, hown, hok => by
-    simp only [cfrag, bfrag, Bool.and_eq_true, beq_iff_eq] at hf
-    obtain ⟨⟨hname, hfa⟩, hfb⟩ := hf
-    subst hname
-    obtain ⟨h1, h2⟩ := evalIn_range_sim hr p args hfa
-    have hb : ∀ ctx' st' env', Rel g ctx' st' env' → Own ctx' st' → ScopeOk ctx' st' →
-        ∃ o : Spec.Eval.ROut, Agree g ctx' st' (execBody g esc call (.mk bp cs) ctx' st') o ∧
-          Spec.Eval.renderBlock reg hasBundle esc entry scall (.mk bp cs) env' = o.bind fun q => .val q.1 := by
-      intro ctx' st' env' hr' hown' hok'
-      refine ⟨cmdsE esc reg hasBundle entry scall cs env', ?_, ?_⟩
-      · rw [execBody]; exact Agree.of_atNode (cmds_agree cs hfb ctx' _ env' (hr'.of_heap rfl) (hown'.atNode _) hok')
-      · rw [Spec.Eval.renderBlock]; exact renderCmds_eq esc reg hasBundle entry scall cs env'
-    rw [execCmd, Spec.Eval.renderCmd]
-    cases hv : Spec.Eval.eval env (.func p fRange args) with
-    | unspec => simp [Spec.Eval.Out.bind, Agree]
-    | error => simp [Spec.Eval.Out.bind, Agree, h2 hv]
-    | val v =>
-      obtain ⟨id, mvs, st1, he, hveq, hsc, hheap, hout⟩ := h1 v hv
-      subst hveq
-      have hr1 : Rel g ctx st1 env := hr.of_heap hheap
-      have hok1 : ScopeOk ctx st1 := fun f hf' => by rw [hheap]; exact hok f hf'
-      simp only [Spec.Eval.Out.bind, he]
-      cases mvs with
-      | nil =>
-        simp only [List.isEmpty_nil, if_true, absL]
-        exact ⟨rfl, by rw [hout]; simp, hr1⟩
-      | cons x rest =>
-        simp only [List.isEmpty_cons, Bool.false_eq_true, if_false, absL]
-        have hl := loop_agree g (execBody g esc call (.mk bp cs)) _ (execBody_good g esc call hcall _) hb var
-          (((x :: rest).length : Int) - 1) ((absV x :: absL rest).length - 1) (x :: rest) 0 ctx st1 env hr1 hok1 hsc
-        rw [absL] at hl
-        cases hlv : Spec.Eval.loopSpec (Spec.Eval.renderBlock reg hasBundle esc entry scall (.mk bp cs)) env var
-            ((absV x :: absL rest).length - 1) (absV x :: absL rest) 0 with
-        | unspec => simp [Agree]
-        | error => rw [hlv] at hl; simpa [Agree, AgreeB] using hl
-        | val out =>
-          rw [hlv] at hl
-          simp only [AgreeB] at hl
-          exact ⟨hl.1, by rw [hl.2.1, hout], hl.2.2⟩
-  | .forc _ var (.func p fname args) (.mk bp cs) (some bE), hf, ctx, st, env, hr, hown, hok => by
-    simp only [cfrag, bfrag, Bool.and_eq_true, beq_iff_eq] at hf
-    obtain ⟨⟨⟨hname, hfa⟩, hfb⟩, hfe⟩ := hf
-    subst hname
-    obtain ⟨h1, h2⟩ := evalIn_range_sim hr p args hfa
-    have hb : ∀ ctx' st' env', Rel g ctx' st' env' → Own ctx' st' → ScopeOk ctx' st' →
-        ∃ o : Spec.Eval.ROut, Agree g ctx' st' (execBody g esc call (.mk bp cs) ctx' st') o ∧
-          Spec.Eval.renderBlock reg hasBundle esc entry scall (.mk bp cs) env' = o.bind fun q => .val q.1 := by
-      intro ctx' st' env' hr' hown' hok'
-      refine ⟨cmdsE esc reg hasBundle entry scall cs env', ?_, ?_⟩
-      · rw [execBody]; exact Agree.of_atNode (cmds_agree cs hfb ctx' _ env' (hr'.of_heap rfl) (hown'.atNode _) hok')
-      · rw [Spec.Eval.renderBlock]; exact renderCmds_eq esc reg hasBundle entry scall cs env'
-    rw [execCmd, Spec.Eval.renderCmd]
-    cases hv : Spec.Eval.eval env (.func p fRange args) with
-    | unspec => simp [Spec.Eval.Out.bind, Agree]
-    | error => simp [Spec.Eval.Out.bind, Agree, h2 hv]
-    | val v =>
-      obtain ⟨id, mvs, st1, he, hveq, hsc, hheap, hout⟩ := h1 v hv
-      subst hveq
-      have hr1 : Rel g ctx st1 env := hr.of_heap hheap
-      have hok1 : ScopeOk ctx st1 := fun f hf' => by rw [hheap]; exact hok f hf'
-      simp only [Spec.Eval.Out.bind, he]
-      cases mvs with
-      | nil =>
-        simp only [List.isEmpty_nil, if_true, absL]
-        have hbe := body_agree bE hfe ctx st1 env hr1 hok1
-        cases hve : Spec.Eval.renderBlock reg hasBundle esc entry scall bE env with
-        | unspec => simp [Spec.Eval.Out.bind, Agree]
-        | error => rw [hve] at hbe; simpa [Spec.Eval.Out.bind, Agree, AgreeB] using hbe
-        | val out =>
-          rw [hve] at hbe
-          simp only [AgreeB] at hbe
-          exact ⟨hbe.1, by rw [hbe.2.1, hout], hbe.2.2⟩
-      | cons x rest =>
-        simp only [List.isEmpty_cons, Bool.false_eq_true, if_false, absL]
-        have hl := loop_agree g (execBody g esc call (.mk bp cs)) _ (execBody_good g esc call hcall _) hb var
-          (((x :: rest).length : Int) - 1) ((absV x :: absL rest).length - 1) (x :: rest) 0 ctx st1 env hr1 hok1 hsc
-        rw [absL] at hl
-        cases hlv : Spec.Eval.loopSpec (Spec.Eval.renderBlock reg hasBundle esc entry scall (.mk bp cs)) env var
-            ((absV x :: absL rest).length - 1) (absV x :: absL rest) 0 with
-        | unspec => simp [Agree]
-        | error => rw [hlv] at hl; simpa [Agree, AgreeB] using hl
-        | val out =>
-          rw [hlv] at hl
-          simp only [AgreeB] at hl
-          exact ⟨hl.1, by rw [hl.2.1, hout], hl.2.2⟩
-  | .forc _ _ (.null _) _ _, hf, _, _, _, _, _, _ => by simp [cfrag] at hf
-  | .forc _ _ (.bool _ _) _ _, hf, _, _, _, _, _, _ => by simp [cfrag] at hf
-  | .forc _ _ (.int _ _) _ _, hf, _, _, _, _, _, _ => by simp [cfrag] at hf
-  | .forc _ _ (.float _ _) _ _, hf, _, _, _, _, _, _ => by simp [cfrag] at hf
-  | .forc _ _ (.str _ _ _) _ _, hf, _, _, _, _, _, _ => by simp [cfrag] at hf
-  | .forc _ _ (.global _ _) _ _, hf, _, _, _, _, _, _ => by simp [cfrag] at hf
-  | .forc _ _ (.map _ _) _ _, hf, _, _, _, _, _, _ => by simp [cfrag] at hf
-  | .forc _ _ (.dataRef _ _ _) _ _, hf, _, _, _, _, _, _ => by simp [cfrag] at hf
-  | .forc _ _ (.not _ _) _ _, hf, _, _, _, _, _, _ => by simp [cfrag] at hf
-  | .forc _ _ (.neg _ _) _ _, hf, _, _, _, _, _, _ => by simp [cfrag] at hf
-  | .forc _ _ (.bin _ _ _ _) _ _, hf, _, _, _, _, _, _ => by simp [cfrag] at hf
-  | .forc _ _ (.tern _ _ _ _) _ _, hf, _, _, _, _, _, _ => by simp [cfrag] at hf
+    refine forc_core g esc call hcall reg hasBundle entry scall dsem p0 var E (.mk bp cs) (some bE) ctx st env hr hok ?_
+      (fun bE' h st1 hr1 hok1 => by
+        simp only [Option.some.injEq] at h; subst h
+        exact body_agree bE hf.2 ctx st1 env hr1 hok1) (listFrag_sim g entry hr E hf.1.1)
+    intro ctx' st' env' hr' hown' hok'
+    refine ⟨cmdsE esc reg hasBundle entry scall dsem cs env', ?_, ?_⟩
+    · rw [execBody]; exact Agree.of_atNode (cmds_agree cs hf.1.2 ctx' _ env' (hr'.of_heap rfl) (hown'.atNode _) hok')
+    · rw [Spec.Eval.renderBlock]; exact renderCmds_eq esc reg hasBundle entry scall dsem cs env'
   | .switch _ value cases, hf, ctx, st, env, hr, hown, hok => by
     simp only [cfrag, Bool.and_eq_true] at hf
     obtain ⟨h1, h2⟩ := evalIn_sim hr value hf.1
@@ -931,27 +1361,94 @@ theorem cmd_agree : (c : Cmd) → cfrag c = true → ∀ (ctx : Scope) (st : St)
     | error => simp [Spec.Eval.Out.bind, Agree, h2 hv]
     | val v =>
       obtain ⟨mv, st1, he, habs, hsc, hheap, hout⟩ := h1 v hv
-      have hr1 : Rel g ctx st1 env := hr.of_heap hheap
+      have hr1 : Rel coll g entry ctx st1 env := hr.of_heap hheap
       have hok1 : ScopeOk ctx st1 := fun f hf' => by rw [hheap]; exact hok f hf'
       have hown1 : Own ctx st1 := hown.ext (evalIn_ext (fun _ => False) he)
       have hc := cases_agree cases mv hsc hf.2 ctx st1 env hr1 hown1 hok1
       rw [habs] at hc
       simp only [Spec.Eval.Out.bind, he]
-      cases hcv : Spec.Eval.renderCases reg hasBundle esc entry scall cases v env with
+      cases hcv : Spec.Eval.renderCases reg hasBundle esc entry scall dsem cases v env with
       | unspec => simp [Agree]
       | error => rw [hcv] at hc; simpa [Agree, AgreeB] using hc
       | val out =>
         rw [hcv] at hc
         simp only [AgreeB] at hc
         exact ⟨hc.1, by rw [hc.2.1, hout], hc.2.2⟩
-  | .call p name true d ps, hf, _, _, _, _, _, _ => by simp [cfrag] at hf
-  | .call p name false (some d) ps, hf, _, _, _, _, _, _ => by simp [cfrag] at hf
+  | .call p name true (some d) ps, hf, _, _, _, _, _, _ => by simp [cfrag] at hf
+  | .call p name false (some d) ps, hf, ctx, st, env, hr, hown, hok => by
+    simp only [cfrag, Bool.and_eq_true] at hf
+    obtain ⟨hD1, hD2⟩ := dataFrag_sim g entry hr d hf.1
+    have hgood := C02.block_cmd_scoped g esc call hcall (.call p name false (some d) ps) (by intros; simp) (by intros; simp) ctx st hown
+    have hrel : Rel coll g entry ctx (execCmd g esc call (.call p name false (some d) ps) ctx st).st env :=
+      hr.of_ext hgood.ext hok (fun _ _ h => h)
+    rw [execCmd] at hrel ⊢
+    rw [Spec.Eval.renderCmd, hreg]
+    rw [hreg] at hrel
+    cases hl : Registry.lookup reg name with
+    | none => simp [Agree]
+    | some callee =>
+      rw [hl] at hrel
+      simp only [Bool.false_eq_true, if_false] at hrel ⊢
+      cases hv : Spec.Eval.eval env d with
+      | unspec => simp [Spec.Eval.Out.bind, Agree]
+      | error => simp [Spec.Eval.Out.bind, Agree, callData, hD2 hv]
+      | val v =>
+        obtain ⟨mv, st1, he, hms, hheap, hout⟩ := hD1 v hv
+        cases mv with
+        | map id kvs =>
+          obtain ⟨B, rfl, hfind, hscal⟩ := hms
+          have hcd : callData g false (some d) ctx st = some (⟨st1.heap.length + 1, false⟩ :: [⟨st1.heap.length, false⟩],
+              { st1 with heap := st1.heap ++ [⟨kvs, true⟩, ⟨[], false⟩] }) := by
+            simp [callData, he, newScope, push]
+          rw [hcd] at hrel ⊢
+          simp only [Spec.Eval.Out.bind] at hrel ⊢
+          have own0 : Own (⟨st1.heap.length + 1, false⟩ :: [⟨st1.heap.length, false⟩])
+              { st1 with heap := st1.heap ++ [⟨kvs, true⟩, ⟨[], false⟩] } :=
+            ⟨⟨st1.heap.length + 1, false⟩, [⟨st1.heap.length, false⟩], ⟨[], false⟩, rfl, by simp, rfl⟩
+          have hfr0 : FrameRel coll ({ st1 with heap := st1.heap ++ [⟨kvs, true⟩, ⟨[], false⟩] } : St).heap
+              (⟨st1.heap.length + 1, false⟩ :: [⟨st1.heap.length, false⟩]) B := by
+            intro k
+            have hl1 : lookup (st1.heap ++ [⟨kvs, true⟩, ⟨[], false⟩]) (⟨st1.heap.length + 1, false⟩ :: [⟨st1.heap.length, false⟩]) k =
+                (Frame.find kvs k).getD .undefined := by
+              simp [lookup, heapGet, Frame.find]
+              cases Frame.find kvs k <;> rfl
+            show absV (lookup (st1.heap ++ [⟨kvs, true⟩, ⟨[], false⟩]) _ k) = _ ∧ OkAt coll k (lookup (st1.heap ++ [⟨kvs, true⟩, ⟨[], false⟩]) _ k)
+            rw [hl1, hfind k]
+            cases hfk : Frame.find kvs k with
+            | none => simp [absV, OkAt, Scalar, Shallow]
+            | some x =>
+              have hx : Scalar x = true := by
+                have hmem : (k, x) ∈ kvs ∨ ∃ k', (k', x) ∈ kvs := Or.inr (frame_find_mem kvs k x hfk)
+                rcases hmem with h | ⟨k', h⟩
+                · exact hscal _ h
+                · exact hscal _ h
+              exact ⟨rfl, OkAt.of_scalar hx⟩
+          have hok1 : ScopeOk ctx st1 := fun f hf' => by rw [hheap]; exact hok f hf'
+          have hne : ∀ f ∈ ctx, f.ref ≠ top (⟨st1.heap.length + 1, false⟩ :: [⟨st1.heap.length, false⟩]) := by
+            intro f hf' e; have := hok1 f hf'; simp [top] at e; omega
+          have hr0 : Rel coll g entry ctx { st1 with heap := st1.heap ++ [⟨kvs, true⟩, ⟨[], false⟩] } env :=
+            (hr.of_heap hheap).of_ext (Ext.append st1 _) hok1 (fun _ _ h => h)
+          have hok0 : ScopeOk ctx { st1 with heap := st1.heap ++ [⟨kvs, true⟩, ⟨[], false⟩] } := fun f hf' => by
+            have := hok1 f hf'; simp; omega
+          have hp := params_agree ps hf.2 _ ctx _ env B hr0 ((show Own ctx st1 from by
+              obtain ⟨f, r, c, h1, h2, h3⟩ := hown
+              exact ⟨f, r, c, h1, by rw [hheap]; exact h2, h3⟩).ext (Ext.append st1 _)) own0 (by intro f hf'; simp at hf'; rcases hf' with rfl | rfl <;> simp) hfr0 hne hok0
+          exact Agree.of_out g entry (st0 := { st1 with heap := st1.heap ++ [⟨kvs, true⟩, ⟨[], false⟩] }) hout
+            (call_core g esc call hcall reg hasBundle entry scall dsem hcs callee (List.mem_of_find?_eq_some hl) ps ctx _ env
+              (st1.heap.length + 1) [⟨st1.heap.length, false⟩] B own0 (by simp) (by simp) hp hr.base.globals hrel)
+        | undefined => cases v <;> first | exact absurd rfl (hms _) | simp [Spec.Eval.Out.bind, Agree, callData, he]
+        | null => cases v <;> first | exact absurd rfl (hms _) | simp [Spec.Eval.Out.bind, Agree, callData, he]
+        | bool _ => cases v <;> first | exact absurd rfl (hms _) | simp [Spec.Eval.Out.bind, Agree, callData, he]
+        | int _ => cases v <;> first | exact absurd rfl (hms _) | simp [Spec.Eval.Out.bind, Agree, callData, he]
+        | float _ => cases v <;> first | exact absurd rfl (hms _) | simp [Spec.Eval.Out.bind, Agree, callData, he]
+        | str _ => cases v <;> first | exact absurd rfl (hms _) | simp [Spec.Eval.Out.bind, Agree, callData, he]
+        | list _ _ => cases v <;> first | exact absurd rfl (hms _) | simp [Spec.Eval.Out.bind, Agree, callData, he]
   | .call p name false none ps, hf, ctx, st, env, hr, hown, hok => by
     simp only [cfrag] at hf
     -- after the call the caller's bindings are what they were (Props/C02 block_cmd_scoped)
     have hgood := C02.block_cmd_scoped g esc call hcall (.call p name false none ps) (by intros; simp) (by intros; simp) ctx st hown
-    have hrel : Rel g ctx (execCmd g esc call (.call p name false none ps) ctx st).st env :=
-      hr.of_lookup (C02.lookup_ext hgood.ext ctx hok)
+    have hrel : Rel coll g entry ctx (execCmd g esc call (.call p name false none ps) ctx st).st env :=
+      hr.of_ext hgood.ext hok (fun _ _ h => h)
     rw [execCmd] at hrel ⊢
     rw [Spec.Eval.renderCmd, hreg]
     rw [hreg] at hrel
@@ -965,105 +1462,85 @@ theorem cmd_agree : (c : Cmd) → cfrag c = true → ∀ (ctx : Scope) (st : St)
       -- the callee's param frame: a fresh empty map
       have own0 : Own [⟨st.heap.length, false⟩] { st with heap := st.heap ++ [⟨[], false⟩] } :=
         ⟨⟨st.heap.length, false⟩, [], ⟨[], false⟩, rfl, by simp, rfl⟩
-      have hfr0 : FrameRel ({ st with heap := st.heap ++ [⟨[], false⟩] } : St).heap [⟨st.heap.length, false⟩] [] := by
+      have hfr0 : FrameRel coll ({ st with heap := st.heap ++ [⟨[], false⟩] } : St).heap [⟨st.heap.length, false⟩] [] := by
         intro k
-        simp [lookup, heapGet, Frame.find, Spec.Eval.find, absV, Scalar]
+        simp [lookup, heapGet, Frame.find, Spec.Eval.find, absV, Scalar, OkAt, Shallow]
       have hne : ∀ f ∈ ctx, f.ref ≠ top [⟨st.heap.length, false⟩] := by
         intro f hf' e; have := hok f hf'; simp [top] at e; omega
-      have hr0 : Rel g ctx { st with heap := st.heap ++ [⟨[], false⟩] } env :=
-        hr.of_lookup (C02.lookup_ext (st := st) (st' := { st with heap := st.heap ++ [⟨[], false⟩] })
-          ⟨by simp, fun i c hc => ⟨c, by
-            have hi : i < st.heap.length := (List.getElem?_eq_some_iff.mp hc).1
-            simp [List.getElem?_append_left hi, hc], rfl, fun _ => rfl⟩, rfl⟩ ctx hok)
+      have hr0 : Rel coll g entry ctx { st with heap := st.heap ++ [⟨[], false⟩] } env :=
+        hr.of_ext (Ext.append st [⟨[], false⟩]) hok (fun _ _ h => h)
       have hok0 : ScopeOk ctx { st with heap := st.heap ++ [⟨[], false⟩] } := fun f hf' => by
         have := hok f hf'; simp; omega
-      have hp := params_agree g esc call reg hasBundle entry scall ps hf [⟨st.heap.length, false⟩] ctx _ env [] hr0 own0 hfr0 hne hok0
-      have hpg := execParams_good g esc call hcall ps [⟨st.heap.length, false⟩] ctx { st with heap := st.heap ++ [⟨[], false⟩] } own0
-      cases hpv : Spec.Eval.renderParams reg hasBundle esc entry scall ps env with
-      | unspec => simp [Agree]
-      | error => rw [hpv] at hp; simp only at hp; simp [Agree, hp]
-      | val R =>
-        rw [hpv] at hp
-        simp only at hp
-        obtain ⟨hpc, hpf, hpo⟩ := hp
-        simp only [hpc, hpg.ctx_eq hpc] at hrel ⊢
-        obtain ⟨cctx, s2, hent, ownc, e3, htopc, hcctx⟩ := enter_cons ⟨st.heap.length, false⟩ []
-          (execParams g esc call ps [⟨st.heap.length, false⟩] ctx { st with heap := st.heap ++ [⟨[], false⟩] }).st
-        rw [hent] at hrel ⊢
-        simp only at hrel ⊢
-        -- the callee starts from exactly the params
-        have hlen := hpg.ext.len
-        have hcell : st.heap.length < (execParams g esc call ps [⟨st.heap.length, false⟩] ctx { st with heap := st.heap ++ [⟨[], false⟩] }).st.heap.length := by
-          simp at hlen; omega
-        have hokc : ScopeOk cctx s2 := by
-          intro f hf'
-          rw [hcctx] at hf'
-          have := (e3 (fun _ => False)).len
-          simp only [List.mem_cons, List.mem_nil_iff, or_false] at hf'
-          rcases hf' with rfl | rfl
-          · simp only; have h2 : s2.heap.length = (execParams g esc call ps [⟨st.heap.length, false⟩] ctx { st with heap := st.heap ++ [⟨[], false⟩] }).st.heap.length + 1 := by
-              simp only [enter, push, Option.some.injEq, Prod.mk.injEq] at hent; rw [← hent.2]; simp
-            omega
-          · simp only; omega
-        have hlk : ∀ k, lookup s2.heap cctx k =
-            lookup (execParams g esc call ps [⟨st.heap.length, false⟩] ctx { st with heap := st.heap ++ [⟨[], false⟩] }).st.heap
-              [⟨st.heap.length, false⟩] k := by
-          intro k
-          have hpe := hent
-          simp only [enter, Option.some.injEq] at hpe
-          have hc1 : cctx = (push [⟨st.heap.length, true⟩]
-              (execParams g esc call ps [⟨st.heap.length, false⟩] ctx { st with heap := st.heap ++ [⟨[], false⟩] }).st).1 := by rw [hpe]
-          have hs2 : s2 = (push [⟨st.heap.length, true⟩]
-              (execParams g esc call ps [⟨st.heap.length, false⟩] ctx { st with heap := st.heap ++ [⟨[], false⟩] }).st).2 := by rw [hpe]
-          rw [hc1, hs2]
-          have := lookup_push [⟨st.heap.length, true⟩]
-            (execParams g esc call ps [⟨st.heap.length, false⟩] ctx { st with heap := st.heap ++ [⟨[], false⟩] }).st
-            (by intro f hf'; simp only [List.mem_cons, List.mem_nil_iff, or_false] at hf'; subst hf'; exact hcell) k
-          rw [this]
-          simp [lookup]
-        have hrc : Rel g cctx s2 { vars := R ++ [], loops := [], ij := env.ij, globals := env.globals } := by
-          refine ⟨fun k _ => ?_, fun k => ?_, hr.globals⟩
-          · show absV (lookup s2.heap cctx k) = _
-            rw [hlk k]; exact (hpf k).1
-          · show Scalar (lookup s2.heap cctx k) = true
-            rw [hlk k]; exact (hpf k).2
-        have hmem : callee ∈ reg := List.mem_of_find?_eq_some hl
-        have hct := hcs callee hmem cctx s2 { entry := R ++ [], ij := env.ij, globals := env.globals } hrc ownc hokc
-        have hout2 : s2.out = st.out := by
-          simp only [enter, push, Option.some.injEq, Prod.mk.injEq] at hent
-          rw [← hent.2]; exact hpo
-        cases hsv : scall callee { entry := R ++ [], ij := env.ij, globals := env.globals } with
-        | unspec => simp [Agree]
-        | error => rw [hsv] at hct; simpa [Agree, AgreeT] using hct
-        | val out =>
-          rw [hsv] at hct
-          simp only [AgreeT] at hct
-          simp only [Agree]
-          exact ⟨hct.1, by show bufBytes (call callee cctx s2).st.out = _; rw [hct.2, hout2], hrel⟩
+      have hp := params_agree ps hf [⟨st.heap.length, false⟩] ctx _ env [] hr0 (hown.ext (Ext.append st _)) own0 (by intro f hf'; simp at hf'; subst hf'; simp) hfr0 hne hok0
+      exact Agree.of_out g entry (st0 := { st with heap := st.heap ++ [⟨[], false⟩] }) rfl
+        (call_core g esc call hcall reg hasBundle entry scall dsem hcs callee (List.mem_of_find?_eq_some hl) ps ctx _ env
+          st.heap.length [] [] own0 (by simp) (by simp) hp hr.base.globals hrel)
+  | .call p name true none ps, hf, ctx, st, env, hr, hown, hok => by
+    simp only [cfrag] at hf
+    obtain ⟨f0, r0, sc, hc0, hf0, ha0, hne0, hlt0, hfr0e⟩ := hr.ent
+    have halld : alldata ctx = some sc := by rw [hc0, alldata, hf0]; simpa using ha0
+    have hgood := C02.block_cmd_scoped g esc call hcall (.call p name true none ps) (by intros; simp) (by intros; simp) ctx st hown
+    have hrel : Rel coll g entry ctx (execCmd g esc call (.call p name true none ps) ctx st).st env :=
+      hr.of_ext hgood.ext hok (fun _ _ h => h)
+    rw [execCmd] at hrel ⊢
+    rw [Spec.Eval.renderCmd, hreg]
+    rw [hreg] at hrel
+    cases hl : Registry.lookup reg name with
+    | none => simp [Agree]
+    | some callee =>
+      rw [hl] at hrel
+      simp only [if_true, Spec.Eval.Out.bind] at hrel ⊢
+      have hcd : callData g true none ctx st = some (⟨st.heap.length, false⟩ :: sc, { st with heap := st.heap ++ [⟨[], false⟩] }) := by
+        simp [callData, halld, push]
+      rw [hcd] at hrel ⊢
+      simp only at hrel ⊢
+      -- the callee's param frame: a fresh empty map over the frames `alldata` passes
+      have own0 : Own (⟨st.heap.length, false⟩ :: sc) { st with heap := st.heap ++ [⟨[], false⟩] } :=
+        ⟨⟨st.heap.length, false⟩, sc, ⟨[], false⟩, rfl, by simp, rfl⟩
+      have hfr0 : FrameRel coll ({ st with heap := st.heap ++ [⟨[], false⟩] } : St).heap (⟨st.heap.length, false⟩ :: sc) entry :=
+        fun k => by
+          have hl' : lookup (st.heap ++ [⟨[], false⟩]) (⟨st.heap.length, false⟩ :: sc) k = lookup st.heap sc k :=
+            lookup_push sc st (fun x hx => hlt0 x hx) k
+          show absV (lookup (st.heap ++ [⟨[], false⟩]) (⟨st.heap.length, false⟩ :: sc) k) = _ ∧ OkAt coll k (lookup (st.heap ++ [⟨[], false⟩]) (⟨st.heap.length, false⟩ :: sc) k)
+          rw [hl']; exact hfr0e k
+      have hne : ∀ f ∈ ctx, f.ref ≠ top (⟨st.heap.length, false⟩ :: sc) := by
+        intro f hf' e; have := hok f hf'; simp [top] at e; omega
+      have hr0 : Rel coll g entry ctx { st with heap := st.heap ++ [⟨[], false⟩] } env :=
+        hr.of_ext (Ext.append st [⟨[], false⟩]) hok (fun _ _ h => h)
+      have hok0 : ScopeOk ctx { st with heap := st.heap ++ [⟨[], false⟩] } := fun f hf' => by
+        have := hok f hf'; simp; omega
+      have hp := params_agree ps hf (⟨st.heap.length, false⟩ :: sc) ctx _ env entry hr0 (hown.ext (Ext.append st _)) own0 (fun f hf' => by
+          simp only [List.mem_cons] at hf'
+          rcases hf' with rfl | hf'
+          · simp
+          · have := hlt0 f hf'; simp; omega) hfr0 hne hok0
+      exact Agree.of_out g entry (st0 := { st with heap := st.heap ++ [⟨[], false⟩] }) rfl
+        (call_core g esc call hcall reg hasBundle entry scall dsem hcs callee (List.mem_of_find?_eq_some hl) ps ctx _ env
+          st.heap.length sc entry own0 (by simp) (fun x hx => by have := hlt0 x hx; simp; omega) hp hr.base.globals hrel)
   | .namespace .., hf, _, _, _, _, _, _ => by simp [cfrag] at hf
   | .template .., hf, _, _, _, _, _, _ => by simp [cfrag] at hf
   | .soyDoc .., hf, _, _, _, _, _, _ => by simp [cfrag] at hf
 /-- a block: `walkBlock` against the specification's `renderBlock` -/
-theorem body_agree : (b : Block) → bfrag b = true → ∀ (ctx : Scope) (st : St) (env : Spec.Eval.Env),
-    Rel g ctx st env → ScopeOk ctx st →
-    AgreeB g ctx st env (walkBlockOf (execBody g esc call b) ctx st) (Spec.Eval.renderBlock reg hasBundle esc entry scall b env)
+theorem body_agree : (b : Block) → bfrag coll b = true → ∀ (ctx : Scope) (st : St) (env : Spec.Eval.Env),
+    Rel coll g entry ctx st env → ScopeOk ctx st →
+    AgreeB coll g entry ctx st env (walkBlockOf (execBody g esc call b) ctx st) (Spec.Eval.renderBlock reg hasBundle esc entry scall dsem b env)
   | .mk _ cs, hf, ctx, st, env, hr, hok => by
     simp only [bfrag] at hf
-    refine block_agree g (execBody g esc call (.mk _ cs)) _ (execBody_good g esc call hcall _) ?_ ctx st env hr hok
+    refine block_agree g entry (execBody g esc call (.mk _ cs)) _ (execBody_good g esc call hcall _) ?_ ctx st env hr hok
     intro ctx' st' env' hr' hown' hok'
-    refine ⟨cmdsE esc reg hasBundle entry scall cs env', ?_, ?_⟩
+    refine ⟨cmdsE esc reg hasBundle entry scall dsem cs env', ?_, ?_⟩
     · rw [execBody]; exact Agree.of_atNode (cmds_agree cs hf ctx' _ env' (hr'.of_heap rfl) (hown'.atNode _) hok')
-    · rw [Spec.Eval.renderBlock]; exact renderCmds_eq esc reg hasBundle entry scall cs env'
-theorem cmds_agree : (cs : CmdList) → csFrag cs = true → ∀ (ctx : Scope) (st : St) (env : Spec.Eval.Env),
-    Rel g ctx st env → Own ctx st → ScopeOk ctx st →
-    Agree g ctx st (execCmds g esc call cs ctx st) (cmdsE esc reg hasBundle entry scall cs env)
+    · rw [Spec.Eval.renderBlock]; exact renderCmds_eq esc reg hasBundle entry scall dsem cs env'
+theorem cmds_agree : (cs : CmdList) → csFrag coll cs = true → ∀ (ctx : Scope) (st : St) (env : Spec.Eval.Env),
+    Rel coll g entry ctx st env → Own ctx st → ScopeOk ctx st →
+    Agree coll g entry ctx st (execCmds g esc call cs ctx st) (cmdsE esc reg hasBundle entry scall dsem cs env)
   | .nil, _, ctx, st, env, hr, _, _ => by
     rw [execCmds, cmdsE]; exact ⟨rfl, by simp, hr⟩
   | .cons c rest, hf, ctx, st, env, hr, hown, hok => by
     simp only [csFrag, Bool.and_eq_true] at hf
     rw [execCmds]
     refine Agree.of_atNode (p := cmdPos c) ?_
-    have hr0 : Rel g ctx (atNode st (cmdPos c)) env := hr.of_heap rfl
+    have hr0 : Rel coll g entry ctx (atNode st (cmdPos c)) env := hr.of_heap rfl
     have hown0 : Own ctx (atNode st (cmdPos c)) := hown.atNode _
     have hok0 : ScopeOk ctx (atNode st (cmdPos c)) := hok
     clear hr hown hok
@@ -1072,7 +1549,7 @@ theorem cmds_agree : (cs : CmdList) → csFrag cs = true → ∀ (ctx : Scope) (
     have h1 := cmd_agree c hf.1 ctx st env hr hown hok
     have hg := execCmd_good g esc call hcall c ctx st hown
     rw [cmdsE]
-    cases hv : Spec.Eval.renderCmd reg hasBundle esc entry scall c env with
+    cases hv : Spec.Eval.renderCmd reg hasBundle esc entry scall dsem c env with
     | unspec => simp [Spec.Eval.Out.bind, Agree]
     | error => rw [hv] at h1; simp only [Agree] at h1; simp [Spec.Eval.Out.bind, Agree, h1]
     | val p =>
@@ -1083,24 +1560,24 @@ theorem cmds_agree : (cs : CmdList) → csFrag cs = true → ∀ (ctx : Scope) (
       simp only [Spec.Eval.Out.bind, hcls, hg.ctx_eq hcls]
       have hok1 : ScopeOk ctx (execCmd g esc call c ctx st).st := fun f hf' => Nat.lt_of_lt_of_le (hok f hf') hg.ext.len
       have h2 := cmds_agree rest hf.2 ctx _ env1 hrel (hown.ext hg.ext) hok1
-      cases hv2 : cmdsE esc reg hasBundle entry scall rest env1 with
+      cases hv2 : cmdsE esc reg hasBundle entry scall dsem rest env1 with
       | unspec => simp [Agree]
       | error => rw [hv2] at h2; simpa [Agree] using h2
       | val p2 =>
         rw [hv2] at h2
         simp only [Agree] at h2 ⊢
         exact ⟨h2.1, by rw [h2.2.1, hbytes]; simp, h2.2.2⟩
-theorem cases_agree : (cs : CaseList) → (sv : Value) → Scalar sv = true → casesFrag cs = true →
-    ∀ (ctx : Scope) (st : St) (env : Spec.Eval.Env), Rel g ctx st env → Own ctx st → ScopeOk ctx st →
-    AgreeB g ctx st env (execCases g esc call cs sv ctx st)
-      (Spec.Eval.renderCases reg hasBundle esc entry scall cs (absV sv) env)
+theorem cases_agree : (cs : CaseList) → (sv : Value) → Scalar sv = true → casesFrag coll cs = true →
+    ∀ (ctx : Scope) (st : St) (env : Spec.Eval.Env), Rel coll g entry ctx st env → Own ctx st → ScopeOk ctx st →
+    AgreeB coll g entry ctx st env (execCases g esc call cs sv ctx st)
+      (Spec.Eval.renderCases reg hasBundle esc entry scall dsem cs (absV sv) env)
   | .nil, _, _, _, ctx, st, env, hr, _, _ => by
     rw [execCases, Spec.Eval.renderCases]; exact ⟨rfl, by simp, hr⟩
   | .cons _ values body rest, sv, hsv, hf, ctx, st, env, hr, hown, hok => by
     simp only [casesFrag, Bool.and_eq_true] at hf
-    obtain ⟨m1, m2⟩ := matchCase_sim g sv hsv values st hr hf.1.1
+    obtain ⟨m1, m2⟩ := matchCase_sim g entry sv hsv values st hr hf.1.1
     rw [execCases, Spec.Eval.renderCases]
-    have conv : ∀ {st1 : St} {r : R} {o : Out Bytes}, st1.out = st.out → AgreeB g ctx st1 env r o → AgreeB g ctx st env r o := by
+    have conv : ∀ {st1 : St} {r : R} {o : Out Bytes}, st1.out = st.out → AgreeB coll g entry ctx st1 env r o → AgreeB coll g entry ctx st env r o := by
       intro st1 r o ho h
       cases o with
       | unspec => trivial
@@ -1117,7 +1594,7 @@ theorem cases_agree : (cs : CaseList) → (sv : Value) → Scalar sv = true → 
       | error => simp [Spec.Eval.Out.bind, AgreeB, m2 hm]
       | val b =>
         obtain ⟨st1, hmc, hh, ho⟩ := m1 b hm
-        have hr1 : Rel g ctx st1 env := hr.of_heap hh
+        have hr1 : Rel coll g entry ctx st1 env := hr.of_heap hh
         have hok1 : ScopeOk ctx st1 := fun f hf' => by rw [hh]; exact hok f hf'
         have hown1 : Own ctx st1 := hown.ext (Ext.of_heap_eq (W := fun _ => False) hh (matchCase_ext (fun _ => False) _ _ _ _ hmc).foreign)
         simp only [Spec.Eval.Out.bind, hmc]
@@ -1126,9 +1603,9 @@ theorem cases_agree : (cs : CaseList) → (sv : Value) → Scalar sv = true → 
         | false =>
           simp only [Bool.false_eq_true, if_false, List.isEmpty_cons]
           exact conv ho (cases_agree rest sv hsv hf.2 ctx st1 env hr1 hown1 hok1)
-theorem conds_agree : (cs : CondList) → condsFrag cs = true → ∀ (ctx : Scope) (st : St) (env : Spec.Eval.Env),
-    Rel g ctx st env → Own ctx st → ScopeOk ctx st →
-    AgreeB g ctx st env (execConds g esc call cs ctx st) (Spec.Eval.renderConds reg hasBundle esc entry scall cs env)
+theorem conds_agree : (cs : CondList) → condsFrag coll cs = true → ∀ (ctx : Scope) (st : St) (env : Spec.Eval.Env),
+    Rel coll g entry ctx st env → Own ctx st → ScopeOk ctx st →
+    AgreeB coll g entry ctx st env (execConds g esc call cs ctx st) (Spec.Eval.renderConds reg hasBundle esc entry scall dsem cs env)
   | .nil, _, ctx, st, env, hr, _, _ => by
     rw [execConds, Spec.Eval.renderConds]; exact ⟨rfl, by simp, hr⟩
   | .cons _ none body _, hf, ctx, st, env, hr, _, hok => by
@@ -1144,11 +1621,11 @@ theorem conds_agree : (cs : CondList) → condsFrag cs = true → ∀ (ctx : Sco
     | error => simp [Spec.Eval.Out.bind, AgreeB, h2 hv]
     | val v =>
       obtain ⟨mv, st1, he, habs, hsc, hheap, hout⟩ := h1 v hv
-      have hr1 : Rel g ctx st1 env := hr.of_heap hheap
+      have hr1 : Rel coll g entry ctx st1 env := hr.of_heap hheap
       have hok1 : ScopeOk ctx st1 := fun f hf' => by rw [hheap]; exact hok f hf'
       have hown1 : Own ctx st1 := hown.ext (evalIn_ext (fun _ => False) he)
       simp only [Spec.Eval.Out.bind, he, ← habs, truthy_abs mv hsc]
-      have conv : ∀ {r : R} {o : Out Bytes}, AgreeB g ctx st1 env r o → AgreeB g ctx st env r o := by
+      have conv : ∀ {r : R} {o : Out Bytes}, AgreeB coll g entry ctx st1 env r o → AgreeB coll g entry ctx st env r o := by
         intro r o h
         cases o with
         | unspec => trivial
@@ -1159,49 +1636,275 @@ theorem conds_agree : (cs : CondList) → condsFrag cs = true → ∀ (ctx : Sco
         exact conv (conds_agree rest hf.2 ctx st1 env hr1 hown1 hok1)
       · simp only [if_true]
         exact conv (body_agree body hf.1.2 ctx st1 env hr1 hok1)
+/-- the params of a call: evaluated / rendered in the caller's environment, bound in the callee's param frame -/
+theorem params_agree : (ps : ParamList) → paramsFrag coll ps = true →
+    ∀ (cd ctx : Scope) (st : St) (env : Spec.Eval.Env) (B0 : Spec.Eval.Binds),
+    Rel coll g entry ctx st env → Own ctx st → Own cd st → ScopeOk cd st → FrameRel coll st.heap cd B0 → (∀ f ∈ ctx, f.ref ≠ top cd) → ScopeOk ctx st →
+    AgreeP coll cd st B0 (execParams g esc call ps cd ctx st) (Spec.Eval.renderParams reg hasBundle esc entry scall dsem ps env)
+  | .nil, _, cd, ctx, st, env, B0, _, _, _, _, hfr, _, _ => by
+    rw [Spec.Eval.renderParams, execParams]
+    exact ⟨rfl, by simpa using hfr, rfl⟩
+  | .value _ key e rest, hf, cd, ctx, st, env, B0, hr, hown, owncd, hcd, hfr, hne, hok => by
+    simp only [paramsFrag, Bool.and_eq_true] at hf
+    obtain ⟨h1, h2⟩ := evalIn_sim hr e hf.1
+    rw [Spec.Eval.renderParams, execParams]
+    cases hv : Spec.Eval.eval env e with
+    | unspec => simp [Spec.Eval.Out.bind, AgreeP]
+    | error => simp [Spec.Eval.Out.bind, AgreeP, h2 hv]
+    | val v =>
+      obtain ⟨mv, st1, he, habs, hsc, hheap, hout⟩ := h1 v hv
+      have e1 : Ext (fun _ => False) st st1 := evalIn_ext _ he
+      have own1 := owncd.ext e1
+      simp only [Spec.Eval.Out.bind, he]
+      cases hs : Eval.set cd st1 key mv with
+      | none => exact absurd hs (set_ne_none own1)
+      | some st2 =>
+        simp only
+        have e2 := set_ext own1 hs
+        have hok1 : ScopeOk ctx st1 := fun f hf' => by rw [hheap]; exact hok f hf'
+        have hr2 : Rel coll g entry ctx st2 env :=
+          (hr.of_heap hheap).of_ext e2 hok1 (fun f hf' h => hne f hf' h)
+        have hfr2 : FrameRel coll st2.heap cd ((key, v) :: B0) := by
+          intro k
+          rw [lookup_set own1 hs k, find_cons]
+          have := hfr k
+          rw [← hheap] at this
+          split
+          · exact ⟨by rw [habs]; rfl, OkAt.of_scalar hsc⟩
+          · exact this
+        have hok2 : ScopeOk ctx st2 := fun f hf' => Nat.lt_of_lt_of_le (hok1 f hf') e2.len
+        have hcd2 : ScopeOk cd st2 := fun f hf' => Nat.lt_of_lt_of_le (by rw [hheap]; exact hcd f hf') e2.len
+        have ih := params_agree rest hf.2 cd ctx st2 env ((key, v) :: B0) hr2 ((hown.ext e1).ext e2) (own1.ext e2) hcd2 hfr2 hne hok2
+        cases hrr : Spec.Eval.renderParams reg hasBundle esc entry scall dsem rest env with
+        | unspec => simp [AgreeP]
+        | error => rw [hrr] at ih; simpa [AgreeP] using ih
+        | val R =>
+          rw [hrr] at ih
+          simp only [AgreeP] at ih ⊢
+          refine ⟨ih.1, ?_, by rw [ih.2.2, Refine.set_out hs, hout]⟩
+          have : (R ++ [(key, v)]) ++ B0 = R ++ (key, v) :: B0 := by simp
+          rw [this]; exact ih.2.1
+  | .content _ key body rest, hf, cd, ctx, st, env, B0, hr, hown, owncd, hcd, hfr, hne, hok => by
+    simp only [paramsFrag, Bool.and_eq_true] at hf
+    rw [Spec.Eval.renderParams, execParams]
+    have hb := body_agree body hf.1 ctx { st with out := [] } env (hr.of_heap rfl) hok
+    have hgood := (renderBlockOf_good' (execBody_good g esc call hcall body) ctx st).1
+    unfold renderBlockOf at hgood ⊢
+    cases hv : Spec.Eval.renderBlock reg hasBundle esc entry scall dsem body env with
+    | unspec => simp [Spec.Eval.Out.bind, AgreeP]
+    | error => rw [hv] at hb; simp only [AgreeB] at hb; simp [Spec.Eval.Out.bind, AgreeP, hb]
+    | val out =>
+      rw [hv] at hb
+      simp only [AgreeB] at hb
+      obtain ⟨hcls, hbytes, hrel⟩ := hb
+      simp only [Spec.Eval.Out.bind, hcls]
+      have hctx := hgood.ctx_eq hcls
+      simp only at hctx
+      rw [hctx]
+      have hbuf : bufBytes (walkBlockOf (execBody g esc call body) ctx { st with out := [] }).st.out = out := by
+        simpa [bufBytes] using hbytes
+      rw [hbuf]
+      have e1 : Ext (fun _ => False) st { (walkBlockOf (execBody g esc call body) ctx { st with out := [] }).st with out := st.out } :=
+        hgood.ext
+      generalize hS1 : ({ (walkBlockOf (execBody g esc call body) ctx { st with out := [] }).st with out := st.out } : St) = st1 at *
+      have hout1 : st1.out = st.out := by rw [← hS1]
+      have hr1 : Rel coll g entry ctx st1 env := by rw [← hS1]; exact hrel.of_heap rfl
+      have own1 : Own cd st1 := owncd.ext e1
+      have hown1 : Own ctx st1 := hown.ext e1
+      cases hs : Eval.set cd st1 key (.str out) with
+      | none => exact absurd hs (set_ne_none own1)
+      | some st2 =>
+        simp only
+        have e2 := set_ext own1 hs
+        have hok1 : ScopeOk ctx st1 := fun f hf' => Nat.lt_of_lt_of_le (hok f hf') e1.len
+        have hcd1 : ScopeOk cd st1 := fun f hf' => Nat.lt_of_lt_of_le (hcd f hf') e1.len
+        have hr2 : Rel coll g entry ctx st2 env := hr1.of_ext e2 hok1 (fun f hf' h => hne f hf' h)
+        have hfr1 : FrameRel coll st1.heap cd B0 := hfr.of_lookup (lookup_ext_W e1 cd hcd (fun _ _ h => h))
+        have hfr2 : FrameRel coll st2.heap cd ((key, .str out) :: B0) := by
+          intro k
+          rw [lookup_set own1 hs k, find_cons]
+          split
+          · exact ⟨rfl, OkAt.of_scalar rfl⟩
+          · exact hfr1 k
+        have hok2 : ScopeOk ctx st2 := fun f hf' => Nat.lt_of_lt_of_le (hok1 f hf') e2.len
+        have hcd2 : ScopeOk cd st2 := fun f hf' => Nat.lt_of_lt_of_le (hcd1 f hf') e2.len
+        have ih := params_agree rest hf.2 cd ctx st2 env ((key, .str out) :: B0) hr2 (hown1.ext e2) (own1.ext e2) hcd2 hfr2 hne hok2
+        cases hrr : Spec.Eval.renderParams reg hasBundle esc entry scall dsem rest env with
+        | unspec => simp [AgreeP]
+        | error => rw [hrr] at ih; simpa [AgreeP] using ih
+        | val R =>
+          rw [hrr] at ih
+          simp only [AgreeP] at ih ⊢
+          refine ⟨ih.1, ?_, by rw [ih.2.2, Refine.set_out hs, hout1]⟩
+          have : (R ++ [(key, .str out)]) ++ B0 = R ++ (key, .str out) :: B0 := by simp
+          rw [this]; exact ih.2.1
+/-- the parts of a {msg} without a bundle: walked in order -/
+theorem parts_agree : (ps : MsgParts) → partsFrag coll ps = true → ∀ (ctx : Scope) (st : St) (env : Spec.Eval.Env),
+    Rel coll g entry ctx st env → Own ctx st → ScopeOk ctx st →
+    Agree coll g entry ctx st (walkMsgBody g esc call ps ctx st) (Spec.Eval.renderParts reg hasBundle esc entry scall dsem ps env)
+  | .nil, _, ctx, st, env, hr, _, _ => by
+    rw [walkMsgBody, Spec.Eval.renderParts]; exact ⟨rfl, by simp, hr⟩
+  | .text p t rest, hf, ctx, st, env, hr, hown, hok => by
+    simp only [partsFrag] at hf
+    rw [walkMsgBody, Spec.Eval.renderParts]
+    have ih := parts_agree rest hf ctx (write (atNode st p) t) env (hr.of_heap rfl)
+      ((hown.atNode p).ext (write_ext (fun _ => False) _ t)) hok
+    cases hv : Spec.Eval.renderParts reg hasBundle esc entry scall dsem rest env with
+    | unspec => simp [Spec.Eval.Out.bind, Agree]
+    | error => rw [hv] at ih; simpa [Spec.Eval.Out.bind, Agree] using ih
+    | val q =>
+      obtain ⟨o, env'⟩ := q
+      rw [hv] at ih
+      simp only [Agree] at ih
+      simp only [Spec.Eval.Out.bind, Agree]
+      refine ⟨ih.1, ?_, ih.2.2⟩
+      rw [ih.2.1, bufBytes_write]
+      show (bufBytes st.out ++ t) ++ o = bufBytes st.out ++ (t ++ o)
+      simp
+  | .ph _ _ b rest, hf, ctx, st, env, hr, hown, hok => by
+    simp only [partsFrag, Bool.and_eq_true] at hf
+    rw [walkMsgBody, Spec.Eval.renderParts]
+    have h1 := ph_agree b hf.1 ctx st env hr hown hok
+    have hg := execPh_good g esc call hcall b ctx st hown
+    cases hv : Spec.Eval.renderPh reg hasBundle esc entry scall dsem b env with
+    | unspec => simp [Spec.Eval.Out.bind, Agree]
+    | error => rw [hv] at h1; simp only [Agree] at h1; simp [Spec.Eval.Out.bind, Agree, h1]
+    | val q =>
+      obtain ⟨o1, env1⟩ := q
+      rw [hv] at h1
+      simp only [Agree] at h1
+      obtain ⟨hcls, hbytes, hrel⟩ := h1
+      simp only [Spec.Eval.Out.bind, hcls, hg.ctx_eq hcls]
+      have hok1 : ScopeOk ctx (execPh g esc call b ctx st).st := fun f hf' => Nat.lt_of_lt_of_le (hok f hf') hg.ext.len
+      have h2 := parts_agree rest hf.2 ctx _ env1 hrel (hown.ext hg.ext) hok1
+      cases hv2 : Spec.Eval.renderParts reg hasBundle esc entry scall dsem rest env1 with
+      | unspec => simp [Agree]
+      | error => rw [hv2] at h2; simpa [Agree] using h2
+      | val q2 =>
+        rw [hv2] at h2
+        simp only [Agree] at h2 ⊢
+        exact ⟨h2.1, by rw [h2.2.1, hbytes]; simp, h2.2.2⟩
+  | .plural _ _ value cases _ dflt rest, hf, ctx, st, env, hr, hown, hok => by
+    simp only [partsFrag, Bool.and_eq_true] at hf
+    obtain ⟨⟨⟨hfv, hfc⟩, hfd⟩, hfr⟩ := hf
+    obtain ⟨h1, h2⟩ := evalIn_sim hr value hfv
+    rw [walkMsgBody, Spec.Eval.renderParts]
+    cases hv : Spec.Eval.eval env value with
+    | unspec => simp [Spec.Eval.Out.bind, Agree]
+    | error => simp [Spec.Eval.Out.bind, Agree, h2 hv]
+    | val v =>
+      obtain ⟨mv, st1, he, habs, hsc, hheap, hout⟩ := h1 v hv
+      subst habs
+      have hr1 : Rel coll g entry ctx st1 env := hr.of_heap hheap
+      have hok1 : ScopeOk ctx st1 := fun f hf' => by rw [hheap]; exact hok f hf'
+      have hown1 : Own ctx st1 := hown.ext (evalIn_ext (fun _ => False) he)
+      simp only [Spec.Eval.Out.bind, he]
+      cases mv with
+      | int i =>
+        simp only [absV]
+        have hd : ∀ ctx' st' env', Rel coll g entry ctx' st' env' → Own ctx' st' → ScopeOk ctx' st' →
+            Agree coll g entry ctx' st' (walkMsgBody g esc call dflt ctx' st')
+              (Spec.Eval.renderParts reg hasBundle esc entry scall dsem dflt env') :=
+          fun ctx' st' env' hr' hown' hok' => parts_agree dflt hfd ctx' st' env' hr' hown' hok'
+        have hp1 := plural_agree cases hfc (walkMsgBody g esc call dflt)
+          (Spec.Eval.renderParts reg hasBundle esc entry scall dsem dflt) hd i.toInt ctx st1 env hr1 hown1 hok1
+        have hg := walkPluralCases_good g esc call hcall cases (walkMsgBody g esc call dflt)
+          (walkMsgBody_good g esc call hcall dflt) i.toInt ctx st1 hown1
+        cases hv1 : Spec.Eval.renderPlural reg hasBundle esc entry scall dsem cases
+            (Spec.Eval.renderParts reg hasBundle esc entry scall dsem dflt) i.toInt env with
+        | unspec => simp [Agree]
+        | error => rw [hv1] at hp1; simp only [Agree] at hp1; simp [Agree, hp1]
+        | val q =>
+          obtain ⟨o1, env1⟩ := q
+          rw [hv1] at hp1
+          simp only [Agree] at hp1
+          obtain ⟨hcls, hbytes, hrel⟩ := hp1
+          simp only [hcls, hg.ctx_eq hcls]
+          have hok2 : ScopeOk ctx (walkPluralCases g esc call cases (walkMsgBody g esc call dflt) i.toInt ctx st1).st :=
+            fun f hf' => Nat.lt_of_lt_of_le (hok1 f hf') hg.ext.len
+          have h3 := parts_agree rest hfr ctx _ env1 hrel (hown1.ext hg.ext) hok2
+          cases hv2 : Spec.Eval.renderParts reg hasBundle esc entry scall dsem rest env1 with
+          | unspec => simp [Agree]
+          | error => rw [hv2] at h3; simpa [Agree] using h3
+          | val q2 =>
+            rw [hv2] at h3
+            simp only [Agree] at h3 ⊢
+            exact ⟨h3.1, by rw [h3.2.1, hbytes, hout]; simp, h3.2.2⟩
+      | undefined => simp [absV, Agree]
+      | null => simp [absV, Agree]
+      | bool _ => simp [absV, Agree]
+      | float _ => simp [absV, Agree]
+      | str _ => simp [absV, Agree]
+      | list _ _ => simp [Scalar] at hsc
+      | map _ _ => simp [Scalar] at hsc
+/-- a placeholder: an HTML tag (its text) or a command -/
+theorem ph_agree : (b : MsgPhBody) → phFrag coll b = true → ∀ (ctx : Scope) (st : St) (env : Spec.Eval.Env),
+    Rel coll g entry ctx st env → Own ctx st → ScopeOk ctx st →
+    Agree coll g entry ctx st (execPh g esc call b ctx st) (Spec.Eval.renderPh reg hasBundle esc entry scall dsem b env)
+  | .htmlTag p text, _, ctx, st, env, hr, _, _ => by
+    rw [execPh, Spec.Eval.renderPh]
+    exact ⟨rfl, bufBytes_write _ text, hr.of_heap rfl⟩
+  | .cmd c, hf, ctx, st, env, hr, hown, hok => by
+    simp only [phFrag] at hf
+    rw [execPh, Spec.Eval.renderPh]
+    exact Agree.of_atNode (cmd_agree c hf ctx _ env (hr.of_heap rfl) (hown.atNode _) hok)
+/-- the cases of a {plural}: the first whose number equals the value, else the default -/
+theorem plural_agree : (cs : PluralCases) → plFrag coll cs = true → ∀ (dflt : Run) (sd : Spec.Eval.Env → Spec.Eval.ROut),
+    (∀ ctx st env, Rel coll g entry ctx st env → Own ctx st → ScopeOk ctx st → Agree coll g entry ctx st (dflt ctx st) (sd env)) →
+    ∀ (i : Int) (ctx : Scope) (st : St) (env : Spec.Eval.Env),
+    Rel coll g entry ctx st env → Own ctx st → ScopeOk ctx st →
+    Agree coll g entry ctx st (walkPluralCases g esc call cs dflt i ctx st) (Spec.Eval.renderPlural reg hasBundle esc entry scall dsem cs sd i env)
+  | .nil, _, dflt, sd, hd, i, ctx, st, env, hr, hown, hok => by
+    rw [walkPluralCases, Spec.Eval.renderPlural]; exact hd ctx st env hr hown hok
+  | .cons _ v _ body rest, hf, dflt, sd, hd, i, ctx, st, env, hr, hown, hok => by
+    simp only [plFrag, Bool.and_eq_true] at hf
+    rw [walkPluralCases, Spec.Eval.renderPlural]
+    split
+    · exact parts_agree body hf.1 ctx st env hr hown hok
+    · exact plural_agree rest hf.2 dflt sd hd i ctx st env hr hown hok
 end
 
 
-include hob hcall hreg hcs in
+include hob hcall hreg hmsg hdir hcs in
 /-- The walk of a template body refines the lexical semantics: on the fragment, whenever `Spec.renderBlock`
     yields text the model ends ok and has written exactly that text after what was written before;
     whenever it yields an error the model yields an error. -/
-theorem exec_refines_lexical_partial (b : Block) (hf : bfrag b = true) (ctx : Scope) (st : St) (env : Spec.Eval.Env)
-    (hr : Rel g ctx st env) (hown : Own ctx st) (hok : ScopeOk ctx st) :
-    match Spec.Eval.renderBlock reg hasBundle esc entry scall b env with
+theorem exec_refines_lexical_partial (b : Block) (hf : bfrag coll b = true) (ctx : Scope) (st : St) (env : Spec.Eval.Env)
+    (hr : Rel coll g entry ctx st env) (hown : Own ctx st) (hok : ScopeOk ctx st) :
+    match Spec.Eval.renderBlock reg hasBundle esc entry scall dsem b env with
     | .val out => (execBody g esc call b ctx st).cls = .ok ∧
         bufBytes (execBody g esc call b ctx st).st.out = bufBytes st.out ++ out
     | .error => (execBody g esc call b ctx st).cls = .err
     | .unspec => True := by
   obtain ⟨p, cs⟩ := b
   simp only [bfrag] at hf
-  have h := Agree.of_atNode (cmds_agree g hob esc call hcall reg hasBundle entry scall hreg hcs cs hf ctx (atNode st p) env (hr.of_heap rfl) (hown.atNode p) hok)
+  have h := Agree.of_atNode (cmds_agree g hob esc call hcall reg hasBundle entry scall dsem hreg hmsg hdir hcs cs hf ctx (atNode st p) env (hr.of_heap rfl) (hown.atNode p) hok)
   rw [Spec.Eval.renderBlock, renderCmds_eq, execBody]
-  cases hv : cmdsE esc reg hasBundle entry scall cs env with
+  cases hv : cmdsE esc reg hasBundle entry scall dsem cs env with
   | unspec => simp [Spec.Eval.Out.bind]
   | error => rw [hv] at h; simpa [Spec.Eval.Out.bind, Agree] using h
   | val q => rw [hv] at h; simp only [Agree] at h; simpa [Spec.Eval.Out.bind] using ⟨h.1, h.2.1⟩
 
-include hob hcall hreg hcs in
+include hob hcall hreg hmsg hdir hcs in
 /-- {foreach $x in E} over a list VALUE: for ANY list expression `E` whose evaluation agrees with the
     specification's in the current state (`hE` — e.g. a variable bound to a list of scalars,
     `list_variable_agrees`), the loop refines the lexical semantics: the body runs once per element in a
     frame of its own, the loop variable is gone afterwards. -/
-theorem foreach_over_value_refines (p0 : Nat) (var : Bytes) (E : Expr) (bp : Nat) (cs : CmdList) (hfb : csFrag cs = true)
-    (ctx : Scope) (st : St) (env : Spec.Eval.Env) (hr : Rel g ctx st env) (hown : Own ctx st) (hok : ScopeOk ctx st)
+theorem foreach_over_value_refines (p0 : Nat) (var : Bytes) (E : Expr) (bp : Nat) (cs : CmdList) (hfb : csFrag coll cs = true)
+    (ctx : Scope) (st : St) (env : Spec.Eval.Env) (hr : Rel coll g entry ctx st env) (hown : Own ctx st) (hok : ScopeOk ctx st)
     (hE : (∀ v, Spec.Eval.eval env E = .val v → ∃ id mvs st1, evalIn g E ctx st = some (.list id mvs, st1) ∧
           v = .list (absL mvs) ∧ (∀ x ∈ mvs, Scalar x = true) ∧ st1.heap = st.heap ∧ st1.out = st.out) ∧
         (Spec.Eval.eval env E = .error → evalIn g E ctx st = none)) :
-    Agree g ctx st (execCmd g esc call (.forc p0 var E (.mk bp cs) none) ctx st)
-      (Spec.Eval.renderCmd reg hasBundle esc entry scall (.forc p0 var E (.mk bp cs) none) env) := by
+    Agree coll g entry ctx st (execCmd g esc call (.forc p0 var E (.mk bp cs) none) ctx st)
+      (Spec.Eval.renderCmd reg hasBundle esc entry scall dsem (.forc p0 var E (.mk bp cs) none) env) := by
     obtain ⟨h1, h2⟩ := hE
-    have hb : ∀ ctx' st' env', Rel g ctx' st' env' → Own ctx' st' → ScopeOk ctx' st' →
-        ∃ o : Spec.Eval.ROut, Agree g ctx' st' (execBody g esc call (.mk bp cs) ctx' st') o ∧
-          Spec.Eval.renderBlock reg hasBundle esc entry scall (.mk bp cs) env' = o.bind fun q => .val q.1 := by
+    have hb : ∀ ctx' st' env', Rel coll g entry ctx' st' env' → Own ctx' st' → ScopeOk ctx' st' →
+        ∃ o : Spec.Eval.ROut, Agree coll g entry ctx' st' (execBody g esc call (.mk bp cs) ctx' st') o ∧
+          Spec.Eval.renderBlock reg hasBundle esc entry scall dsem (.mk bp cs) env' = o.bind fun q => .val q.1 := by
       intro ctx' st' env' hr' hown' hok'
-      refine ⟨cmdsE esc reg hasBundle entry scall cs env', ?_, ?_⟩
-      · rw [execBody]; exact Agree.of_atNode (cmds_agree g hob esc call hcall reg hasBundle entry scall hreg hcs cs hfb ctx' _ env' (hr'.of_heap rfl) (hown'.atNode _) hok')
-      · rw [Spec.Eval.renderBlock]; exact renderCmds_eq esc reg hasBundle entry scall cs env'
+      refine ⟨cmdsE esc reg hasBundle entry scall dsem cs env', ?_, ?_⟩
+      · rw [execBody]; exact Agree.of_atNode (cmds_agree g hob esc call hcall reg hasBundle entry scall dsem hreg hmsg hdir hcs cs hfb ctx' _ env' (hr'.of_heap rfl) (hown'.atNode _) hok')
+      · rw [Spec.Eval.renderBlock]; exact renderCmds_eq esc reg hasBundle entry scall dsem cs env'
     rw [execCmd, Spec.Eval.renderCmd]
     cases hv : Spec.Eval.eval env E with
     | unspec => simp [Spec.Eval.Out.bind, Agree]
@@ -1209,7 +1912,7 @@ theorem foreach_over_value_refines (p0 : Nat) (var : Bytes) (E : Expr) (bp : Nat
     | val v =>
       obtain ⟨id, mvs, st1, he, hveq, hsc, hheap, hout⟩ := h1 v hv
       subst hveq
-      have hr1 : Rel g ctx st1 env := hr.of_heap hheap
+      have hr1 : Rel coll g entry ctx st1 env := hr.of_heap hheap
       have hok1 : ScopeOk ctx st1 := fun f hf' => by rw [hheap]; exact hok f hf'
       simp only [Spec.Eval.Out.bind, he]
       cases mvs with
@@ -1218,10 +1921,10 @@ theorem foreach_over_value_refines (p0 : Nat) (var : Bytes) (E : Expr) (bp : Nat
         exact ⟨rfl, by rw [hout]; simp, hr1⟩
       | cons x rest =>
         simp only [List.isEmpty_cons, Bool.false_eq_true, if_false, absL]
-        have hl := loop_agree g (execBody g esc call (.mk bp cs)) _ (execBody_good g esc call hcall _) hb var
+        have hl := loop_agree g entry (execBody g esc call (.mk bp cs)) _ (execBody_good g esc call hcall _) hb var
           (((x :: rest).length : Int) - 1) ((absV x :: absL rest).length - 1) (x :: rest) 0 ctx st1 env hr1 hok1 hsc
         rw [absL] at hl
-        cases hlv : Spec.Eval.loopSpec (Spec.Eval.renderBlock reg hasBundle esc entry scall (.mk bp cs)) env var
+        cases hlv : Spec.Eval.loopSpec (Spec.Eval.renderBlock reg hasBundle esc entry scall dsem (.mk bp cs)) env var
             ((absV x :: absL rest).length - 1) (absV x :: absL rest) 0 with
         | unspec => simp [Agree]
         | error => rw [hlv] at hl; simpa [Agree, AgreeB] using hl
@@ -1251,13 +1954,14 @@ end
 /-! ### the closed statement: templates calling templates, `execute` against `Spec.render` -/
 
 /-- every template of the registry is in the fragment -/
-def regFrag (reg : Registry.Reg) : Prop := ∀ t ∈ reg, bfrag t.body = true
+def regFrag (coll : Bytes → Bool) (reg : Registry.Reg) : Prop := ∀ t ∈ reg, bfrag coll t.body = true
 
 /-- a template invocation refines the specification's, at every call depth -/
-theorem tmpl_refines (g : GEnv) (hob : g.oblig = []) (hasBundle : Bool) (hfr : regFrag g.reg) :
+theorem tmpl_refines (coll : Bytes → Bool) (g : GEnv) (hob : g.oblig = []) (hasBundle : Bool) (dsem : Option Spec.Eval.DirSem)
+    (hmsg : hasBundle = false → g.msgs = none) (hdir : DirOk g dsem) (hfr : regFrag coll g.reg) :
     ∀ (fuel : Nat) (t : Registry.Tmpl), t ∈ g.reg → ∀ (cctx : Scope) (s2 : St) (ce : Spec.Eval.CallEnv),
-      Rel g cctx s2 { vars := ce.entry, loops := [], ij := ce.ij, globals := ce.globals } → Own cctx s2 → ScopeOk cctx s2 →
-      AgreeT s2 (runTmpl g fuel t cctx s2) (Spec.Eval.renderTmpl g.reg hasBundle fuel t ce) := by
+      Rel coll g ce.entry cctx s2 { vars := ce.entry, loops := [], ij := ce.ij, globals := ce.globals } → Own cctx s2 → ScopeOk cctx s2 →
+      AgreeT s2 (runTmpl g fuel t cctx s2) (Spec.Eval.renderTmpl g.reg hasBundle dsem fuel t ce) := by
   intro fuel
   induction fuel with
   | zero => intro t _ cctx s2 ce _ _ _; rw [Spec.Eval.renderTmpl]; trivial
@@ -1265,23 +1969,15 @@ theorem tmpl_refines (g : GEnv) (hob : g.oblig = []) (hasBundle : Bool) (hfr : r
     intro t ht cctx s2 ce hr hown hok
     rw [runTmpl, Spec.Eval.renderTmpl]
     have h := exec_refines_lexical_partial g hob (escapeOf t) (runTmpl g n) (runTmpl_good g n) g.reg hasBundle ce.entry
-      (Spec.Eval.renderTmpl g.reg hasBundle n) rfl ih t.body (hfr t ht) cctx (atNode s2 t.pos)
+      (Spec.Eval.renderTmpl g.reg hasBundle dsem n) dsem rfl hmsg hdir ih t.body (hfr t ht) cctx (atNode s2 t.pos)
       { vars := ce.entry, loops := [], ij := ce.ij, globals := ce.globals } (hr.of_heap rfl) (hown.atNode _) hok
     have hesc : Spec.Eval.escapeOn t = escapeOf t := rfl
     rw [hesc]
-    cases hv : Spec.Eval.renderBlock g.reg hasBundle (escapeOf t) ce.entry (Spec.Eval.renderTmpl g.reg hasBundle n) t.body
+    cases hv : Spec.Eval.renderBlock g.reg hasBundle (escapeOf t) ce.entry (Spec.Eval.renderTmpl g.reg hasBundle dsem n) dsem t.body
         { vars := ce.entry, loops := [], ij := ce.ij, globals := ce.globals } with
     | unspec => trivial
     | error => rw [hv] at h; exact h
     | val out => rw [hv] at h; exact h
-
-theorem find_absK : ∀ (kvs : Frame) (k : Bytes), Spec.Eval.find (absK kvs) k = (Frame.find kvs k).map absV
-  | [], _ => rfl
-  | (k', v) :: r, k => by
-    simp only [absK, Spec.Eval.find, Frame.find]
-    split
-    · rfl
-    · exact find_absK r k
 
 /-- `Execute` once the entry template is found: the walk starts on the scope [fresh frame, data (entered)] -/
 theorem execute_some (g : GEnv) (name : Bytes) (data : Frame) (fuel : Nat) (t : Registry.Tmpl)
@@ -1298,14 +1994,16 @@ theorem execute_some (g : GEnv) (name : Bytes) (data : Frame) (fuel : Nat) (t : 
   rfl
 
 /-- `exec_refines_lexical` on the fragment, closed: for a registry whose templates are all in the fragment
-    (raw text, print without directives, css, debugger, log, if/elseif/else, switch, foreach over a list
-    literal, let value / content, calls WITHOUT a data attribute and with value params), scalar data and
-    globals, no obligatory directive: whenever `Spec.render` yields text, `execute` ends ok having written
+    (raw text, print with directives (given `DirOk g dsem`), css, debugger, log, if/elseif/else, switch, foreach over a list
+    literal, a range or a variable, let value / content, calls without a data attribute, with data="all",
+    with data="$m" or a map literal, with value and content params, msg without a bundle), data of scalars and — under the names `coll` —
+    lists / maps of scalars, scalar globals, no obligatory directive: whenever `Spec.render` yields text, `execute` ends ok having written
     exactly that text; whenever it yields an error, `execute` fails. -/
-theorem render_refines_lexical_partial (g : GEnv) (hob : g.oblig = []) (hfr : regFrag g.reg)
-    (hgl : ∀ kv ∈ g.globals, Scalar kv.2 = true) (name : Bytes) (data : Frame) (hdata : ∀ kv ∈ data, Scalar kv.2 = true)
-    (fuel : Nat) (ij : Option Spec.Eval.Binds) (hasBundle : Bool) :
-    match Spec.Eval.render g.reg (absK g.globals) ij hasBundle name (absK data) fuel with
+theorem render_refines_lexical_partial (coll : Bytes → Bool) (g : GEnv) (hob : g.oblig = []) (hfr : regFrag coll g.reg)
+    (hgl : ∀ kv ∈ g.globals, Scalar kv.2 = true) (name : Bytes) (data : Frame) (hdata : ∀ kv ∈ data, OkAt coll kv.1 kv.2)
+    (fuel : Nat) (ij : Option Spec.Eval.Binds) (hasBundle : Bool) (hmsg : hasBundle = false → g.msgs = none)
+    (dsem : Option Spec.Eval.DirSem) (hdir : DirOk g dsem) :
+    match Spec.Eval.render g.reg (absK g.globals) ij hasBundle name (absK data) fuel dsem with
     | .val out => (execute g name data fuel).cls = .ok ∧ (execute g name data fuel).chunks.flatten = out
     | .error => (execute g name data fuel).cls = .err ∨ (execute g name data fuel).cls = .panic
     | .unspec => True := by
@@ -1327,18 +2025,33 @@ theorem render_refines_lexical_partial (g : GEnv) (hob : g.oblig = []) (hfr : re
         split at h
         · simp only [Option.some.injEq] at h; subst h; exact hs (k', v') List.mem_cons_self
         · exact ih (fun kv hkv => hs kv (List.mem_cons_of_mem _ hkv)) k v h
-    have hrel : Rel g [⟨1, false⟩, ⟨0, true⟩]
+    have hfindOk : ∀ (kvs : Frame), (∀ kv ∈ kvs, OkAt coll kv.1 kv.2) → ∀ k v, Frame.find kvs k = some v → OkAt coll k v := by
+      intro kvs
+      induction kvs with
+      | nil => intro _ k v h; simp [Frame.find] at h
+      | cons p r ih =>
+        intro hs k v h
+        obtain ⟨k', v'⟩ := p
+        simp only [Frame.find] at h
+        split at h
+        · rename_i hk
+          simp only [Option.some.injEq] at h; subst h
+          have := hs (k', v') List.mem_cons_self
+          rw [eq_of_beq hk] at this; exact this
+        · exact ih (fun kv hkv => hs kv (List.mem_cons_of_mem _ hkv)) k v h
+    have hfr0 : FrameRel coll [⟨data, true⟩, ⟨[], false⟩] [⟨1, false⟩, ⟨0, true⟩] (absK data) := by
+      intro k
+      refine ⟨?_, ?_⟩
+      · simp only [lookup, heapGet, find_absK]
+        cases hf : Frame.find data k <;> simp [Frame.find, absV, hf]
+      · simp only [lookup, heapGet]
+        cases hf : Frame.find data k with
+        | none => simp [Frame.find, Scalar, Shallow, OkAt, hf]
+        | some v => simpa [Frame.find, hf] using hfindOk data hdata k v hf
+    have hrel : Rel coll g (absK data) [⟨1, false⟩, ⟨0, true⟩]
         { heap := [⟨data, true⟩, ⟨[], false⟩], out := [], next := freshBase g data, foreign := 0 }
         { vars := absK data, loops := [], ij := ij, globals := absK g.globals } := by
-      refine ⟨fun k _ => ?_, fun k => ?_, fun k => ?_⟩
-      · show absV (lookup _ _ k) = Spec.Eval.Env.lookup _ k
-        simp only [lookup, heapGet, Spec.Eval.Env.lookup, find_absK]
-        cases hf : Frame.find data k <;> simp [Frame.find, absV, hf]
-      · show Scalar (lookup _ _ k) = true
-        simp only [lookup, heapGet]
-        cases hf : Frame.find data k with
-        | none => simp [Frame.find, Scalar, hf]
-        | some v => simp [Frame.find, hf, hfind data hdata k v hf]
+      refine ⟨⟨fun k _ => (hfr0 k).1, fun k hc => (hfr0 k).2.1 hc, fun k => ?_⟩, fun k => (hfr0 k).2.2, ?_⟩
       · show match Frame.find g.globals k with
           | some v => Spec.Eval.find (absK g.globals) k = some (absV v) ∧ Scalar v = true
           | none => Spec.Eval.find (absK g.globals) k = none
@@ -1346,14 +2059,19 @@ theorem render_refines_lexical_partial (g : GEnv) (hob : g.oblig = []) (hfr : re
         cases hf : Frame.find g.globals k with
         | none => simp
         | some v => simp [hfind g.globals hgl k v hf]
+      · refine ⟨⟨1, false⟩, [⟨0, true⟩], [⟨0, true⟩], rfl, rfl, by simp [alldata], by simp, by simp, ?_⟩
+        intro k
+        have : lookup [⟨data, true⟩, ⟨[], false⟩] [⟨0, true⟩] k = lookup [⟨data, true⟩, ⟨[], false⟩] [⟨1, false⟩, ⟨0, true⟩] k := by
+          simp [lookup, heapGet, Frame.find]
+        rw [this]; exact hfr0 k
     have hown : Own [⟨1, false⟩, ⟨0, true⟩]
         { heap := [⟨data, true⟩, ⟨[], false⟩], out := [], next := freshBase g data, foreign := 0 } :=
       ⟨⟨1, false⟩, [⟨0, true⟩], ⟨[], false⟩, rfl, rfl, rfl⟩
     have hok : ScopeOk [⟨1, false⟩, ⟨0, true⟩]
         { heap := [⟨data, true⟩, ⟨[], false⟩], out := [], next := freshBase g data, foreign := 0 } := by
       intro f hf; simp at hf; rcases hf with rfl | rfl <;> simp
-    have h := tmpl_refines g hob hasBundle hfr fuel t ht _ _ { entry := absK data, ij := ij, globals := absK g.globals } hrel hown hok
-    cases hv : Spec.Eval.renderTmpl g.reg hasBundle fuel t { entry := absK data, ij := ij, globals := absK g.globals } with
+    have h := tmpl_refines coll g hob hasBundle dsem hmsg hdir hfr fuel t ht _ _ { entry := absK data, ij := ij, globals := absK g.globals } hrel hown hok
+    cases hv : Spec.Eval.renderTmpl g.reg hasBundle dsem fuel t { entry := absK data, ij := ij, globals := absK g.globals } with
     | unspec => trivial
     | error =>
       rw [hv] at h
@@ -1368,11 +2086,6 @@ theorem render_refines_lexical_partial (g : GEnv) (hob : g.oblig = []) (hfr : re
       have := h.2
       simpa [bufBytes] using this
 
-section
-variable (g : GEnv)
-
-end
-
 /-! ### non-vacuity: `{if true}{let $x: 'in' /}{$x}{/if}{$x}` on x = 'out' -/
 
 def body0 : Block :=
@@ -1385,26 +2098,29 @@ def st0 : St := { heap := [⟨[([120], .str [111, 117, 116])], true⟩, ⟨[], f
 def ctx0 : Scope := [⟨1, false⟩, ⟨0, true⟩]
 def env0 : Spec.Eval.Env := { vars := [([120], .str [111, 117, 116])], loops := [], ij := none, globals := [] }
 
-theorem rel0 : Rel g0 ctx0 st0 env0 := by
-  refine ⟨fun k _ => ?_, fun k => ?_, fun k => by simp [eenv, g0, Frame.find, env0, Spec.Eval.find]⟩
-  · show absV (lookup st0.heap ctx0 k) = env0.lookup k
+/-- no name holds a collection -/
+def noColl : Bytes → Bool := fun _ => false
+
+theorem rel0 : Rel noColl g0 env0.vars ctx0 st0 env0 := by
+  have hfr : FrameRel noColl st0.heap ctx0 env0.vars := by
+    intro k
     by_cases h : k = [120]
-    · subst h; rfl
+    · subst h; exact ⟨rfl, fun _ => rfl, rfl⟩
     · have h' : ([120] == k) = false := by simpa using fun e => h e.symm
-      simp [lookup, st0, ctx0, heapGet, Frame.find, h', env0, Spec.Eval.Env.lookup, Spec.Eval.find, absV]
-  · show Scalar (lookup st0.heap ctx0 k) = true
-    by_cases h : k = [120]
-    · subst h; rfl
-    · have h' : ([120] == k) = false := by simpa using fun e => h e.symm
-      simp [lookup, st0, ctx0, heapGet, Frame.find, h', Scalar]
+      simp [lookup, st0, ctx0, heapGet, Frame.find, h', env0, Spec.Eval.find, absV, Scalar, OkAt, Shallow]
+  refine ⟨⟨fun k _ => (hfr k).1, fun k hc => (hfr k).2.1 hc, fun k => by simp [eenv, g0, Frame.find, env0, Spec.Eval.find]⟩, fun k => (hfr k).2.2, ?_⟩
+  refine ⟨⟨1, false⟩, [⟨0, true⟩], [⟨0, true⟩], rfl, rfl, by simp [alldata], by simp, by simp [st0], ?_⟩
+  intro k
+  have : lookup st0.heap [⟨0, true⟩] k = lookup st0.heap ctx0 k := by simp [lookup, heapGet, Frame.find, st0, ctx0]
+  rw [this]; exact hfr k
 
 /-- the specification says "inout" (the inner `x` does not leak); by the theorem the model writes "inout" -/
 example : bufBytes (execBody g0 true (fun _ ctx st => ⟨.fuelOut, ctx, st⟩) body0 ctx0 st0).st.out = [105, 110, 111, 117, 116] := by
   have hcall : ∀ t, GoodRun ((fun _ ctx st => ⟨.fuelOut, ctx, st⟩ : Registry.Tmpl → Run) t) :=
     fun _ ctx st _ => ⟨by simp, fun h => by simp at h, Ext.refl _ _⟩
-  have h := exec_refines_lexical_partial g0 rfl true _ hcall [] false [] (fun _ _ => .unspec) rfl (fun _ _ _ _ _ _ _ _ => trivial) body0 (by decide) ctx0 st0 env0 rel0
+  have h := exec_refines_lexical_partial g0 rfl true _ hcall [] false env0.vars (fun _ _ => .unspec) none rfl (fun _ => rfl) (fun _ h => by cases h) (fun _ _ _ _ _ _ _ _ => trivial) body0 (by decide) ctx0 st0 env0 rel0
     ⟨⟨1, false⟩, [⟨0, true⟩], ⟨[], false⟩, rfl, rfl, rfl⟩ (by intro f hf; simp [ctx0] at hf; rcases hf with rfl | rfl <;> simp [st0])
-  have hs : Spec.Eval.renderBlock [] false true [] (fun _ _ => .unspec) body0 env0 = .val [105, 110, 111, 117, 116] := by rfl
+  have hs : Spec.Eval.renderBlock [] false true env0.vars (fun _ _ => .unspec) none body0 env0 = .val [105, 110, 111, 117, 116] := by rfl
   rw [hs] at h
   simpa [bufBytes, st0] using h.2
 
@@ -1419,9 +2135,9 @@ def body1 : Block :=
 example : bufBytes (execBody g0 true (fun _ ctx st => ⟨.fuelOut, ctx, st⟩) body1 ctx0 st0).st.out = [97, 98, 33, 111, 117, 116] := by
   have hcall : ∀ t, GoodRun ((fun _ ctx st => ⟨.fuelOut, ctx, st⟩ : Registry.Tmpl → Run) t) :=
     fun _ ctx st _ => ⟨by simp, fun h => by simp at h, Ext.refl _ _⟩
-  have h := exec_refines_lexical_partial g0 rfl true _ hcall [] false [] (fun _ _ => .unspec) rfl (fun _ _ _ _ _ _ _ _ => trivial) body1 (by decide) ctx0 st0 env0 rel0
+  have h := exec_refines_lexical_partial g0 rfl true _ hcall [] false env0.vars (fun _ _ => .unspec) none rfl (fun _ => rfl) (fun _ h => by cases h) (fun _ _ _ _ _ _ _ _ => trivial) body1 (by decide) ctx0 st0 env0 rel0
     ⟨⟨1, false⟩, [⟨0, true⟩], ⟨[], false⟩, rfl, rfl, rfl⟩ (by intro f hf; simp [ctx0] at hf; rcases hf with rfl | rfl <;> simp [st0])
-  have hs : Spec.Eval.renderBlock [] false true [] (fun _ _ => .unspec) body1 env0 = .val [97, 98, 33, 111, 117, 116] := by rfl
+  have hs : Spec.Eval.renderBlock [] false true env0.vars (fun _ _ => .unspec) none body1 env0 = .val [97, 98, 33, 111, 117, 116] := by rfl
   rw [hs] at h
   simpa [bufBytes, st0] using h.2
 
@@ -1442,12 +2158,239 @@ def tCaller : Registry.Tmpl :=
 def gCall : GEnv := { reg := [tCaller, tCallee], globals := [], ij := none, msgs := none, tbl := [], oblig := [] }
 
 example : (execute gCall [116] [] 4).cls = .ok ∧ (execute gCall [116] [] 4).chunks.flatten = [91, 76, 93, 76] := by
-  have hfr : regFrag gCall.reg := by
+  have hfr : regFrag noColl gCall.reg := by
     intro t ht
     simp only [gCall, List.mem_cons, List.mem_nil_iff, or_false] at ht
     rcases ht with rfl | rfl <;> decide
-  have h := render_refines_lexical_partial gCall rfl hfr (by simp [gCall]) [116] [] (by simp) 4 none false
+  have h := render_refines_lexical_partial noColl gCall rfl hfr (by simp [gCall]) [116] [] (by simp) 4 none false (fun _ => rfl) none (fun _ h => by cases h)
   have hs : Spec.Eval.render gCall.reg (absK gCall.globals) none false [116] (absK []) 4 = .val [91, 76, 93, 76] := by rfl
+  rw [hs] at h
+  exact h
+
+/-! ### data="all": `{let $x: 'L' /}{call .d data="all"}{param p: $x /}{/call}` on data {x: 'D'} with
+    .d = `[{$p}{$x}]`: "[LD]" — the callee gets the ENTRY `x`, not the caller's {let} -/
+
+def tCalleeAll : Registry.Tmpl :=
+  { name := [100], params := [], body := .mk 10 (.cons (.rawText 11 [91]) (.cons (.print 12 (.dataRef 13 [112] .nil) [])
+      (.cons (.print 13 (.dataRef 13 [120] .nil) []) (.cons (.rawText 14 [93]) .nil)))),
+    autoescape := .unspecified, nsName := [110], nsAutoescape := .unspecified, pos := 9, file := [102], text := [] }
+
+def tCallerAll : Registry.Tmpl :=
+  { name := [116], params := [],
+    body := .mk 1 (.cons (.letValue 2 [120] (.str 2 [] [76]))
+      (.cons (.call 3 [100] true none (.value 4 [112] (.dataRef 4 [120] .nil) .nil)) .nil)),
+    autoescape := .unspecified, nsName := [110], nsAutoescape := .unspecified, pos := 0, file := [102], text := [] }
+
+def gAll : GEnv := { reg := [tCallerAll, tCalleeAll], globals := [], ij := none, msgs := none, tbl := [], oblig := [] }
+
+example : (execute gAll [116] [([120], .str [68])] 4).cls = .ok ∧
+    (execute gAll [116] [([120], .str [68])] 4).chunks.flatten = [91, 76, 68, 93] := by
+  have hfr : regFrag noColl gAll.reg := by
+    intro t ht
+    simp only [gAll, List.mem_cons, List.mem_nil_iff, or_false] at ht
+    rcases ht with rfl | rfl <;> decide
+  have h := render_refines_lexical_partial noColl gAll rfl hfr (by simp [gAll]) [116] [([120], .str [68])] (by simp [OkAt, Scalar, Shallow]) 4 none false (fun _ => rfl) none (fun _ h => by cases h)
+  have hs : Spec.Eval.render gAll.reg (absK gAll.globals) none false [116] (absK [([120], .str [68])]) 4 = .val [91, 76, 68, 93] := by rfl
+  rw [hs] at h
+  exact h
+
+/-! ### collections in the data: on {l: ['a', 'b'], m: {x: 'M'}} (the names `l` and `m` may hold collections)
+
+      {foreach $y in $l}{$y}{/foreach}{call .d data="$m"}{param p: 'P' /}{/call}{call .d data="['x': 'Q', 'p': 'R']" /}
+
+    with .d = `[{$p}{$x}]`: "ab[PM][RQ]" -/
+
+def collLM : Bytes → Bool := fun k => k == [108] || k == [109]
+
+def tCallerData : Registry.Tmpl :=
+  { name := [116], params := [],
+    body := .mk 1 (.cons (.forc 1 [121] (.dataRef 1 [108] .nil) (.mk 2 (.cons (.print 2 (.dataRef 2 [121] .nil) []) .nil)) none)
+      (.cons (.call 3 [100] false (some (.dataRef 3 [109] .nil)) (.value 4 [112] (.str 4 [] [80]) .nil))
+      (.cons (.call 5 [100] false (some (.map 5 (.cons [120] (.str 5 [] [81]) (.cons [112] (.str 5 [] [82]) .nil)))) .nil) .nil))),
+    autoescape := .unspecified, nsName := [110], nsAutoescape := .unspecified, pos := 0, file := [102], text := [] }
+
+def gData : GEnv := { reg := [tCallerData, tCalleeAll], globals := [], ij := none, msgs := none, tbl := [], oblig := [] }
+
+def dataLM : Frame := [([108], .list 7 [.str [97], .str [98]]), ([109], .map 8 [([120], .str [77])])]
+
+example : (execute gData [116] dataLM 4).cls = .ok ∧
+    (execute gData [116] dataLM 4).chunks.flatten = [97, 98, 91, 80, 77, 93, 91, 82, 81, 93] := by
+  have hfr : regFrag collLM gData.reg := by
+    intro t ht
+    simp only [gData, List.mem_cons, List.mem_nil_iff, or_false] at ht
+    rcases ht with rfl | rfl <;> decide
+  have h := render_refines_lexical_partial collLM gData rfl hfr (by simp [gData]) [116] dataLM
+    (by simp [dataLM, OkAt, Scalar, Shallow, collLM]) 4 none false (fun _ => rfl) none (fun _ h => by cases h)
+  have hs : Spec.Eval.render gData.reg (absK gData.globals) none false [116] (absK dataLM) 4 =
+      .val [97, 98, 91, 80, 77, 93, 91, 82, 81, 93] := by rfl
+  rw [hs] at h
+  exact h
+
+/-! ### `foreach_over_value_refines` with `list_variable_agrees`: `{foreach $y in $l}{$y}{/foreach}` on l = ['a', 'b'] -/
+
+def stL : St := { heap := [⟨[([108], .list 7 [.str [97], .str [98]])], true⟩, ⟨[], false⟩], out := [], next := 9, foreign := 0 }
+def envL : Spec.Eval.Env := { vars := [([108], .list [.str [97], .str [98]])], loops := [], ij := none, globals := [] }
+
+theorem relL : Rel collLM g0 envL.vars ctx0 stL envL := by
+  have hfr : FrameRel collLM stL.heap ctx0 envL.vars := by
+    intro k
+    by_cases h : k = [108]
+    · subst h; exact ⟨rfl, fun h => by simp [collLM] at h, rfl⟩
+    · have h' : ([108] == k) = false := by simpa using fun e => h e.symm
+      simp [lookup, stL, ctx0, heapGet, Frame.find, h', envL, Spec.Eval.find, absV, Scalar, OkAt, Shallow]
+  refine ⟨⟨fun k _ => (hfr k).1, fun k hc => (hfr k).2.1 hc, fun k => by simp [eenv, g0, Frame.find, envL, Spec.Eval.find]⟩, fun k => (hfr k).2.2, ?_⟩
+  refine ⟨⟨1, false⟩, [⟨0, true⟩], [⟨0, true⟩], rfl, rfl, by simp [alldata], by simp, by simp [stL], ?_⟩
+  intro k
+  have : lookup stL.heap [⟨0, true⟩] k = lookup stL.heap ctx0 k := by simp [lookup, heapGet, Frame.find, stL, ctx0]
+  rw [this]; exact hfr k
+
+example : bufBytes (execCmd g0 true (fun _ ctx st => ⟨.fuelOut, ctx, st⟩)
+    (.forc 1 [121] (.dataRef 1 [108] .nil) (.mk 2 (.cons (.print 2 (.dataRef 2 [121] .nil) []) .nil)) none) ctx0 stL).st.out = [97, 98] := by
+  have hcall : ∀ t, GoodRun ((fun _ ctx st => ⟨.fuelOut, ctx, st⟩ : Registry.Tmpl → Run) t) :=
+    fun _ ctx st _ => ⟨by simp, fun h => by simp at h, Ext.refl _ _⟩
+  have h := foreach_over_value_refines g0 rfl true _ hcall [] false envL.vars (fun _ _ => .unspec) none rfl (fun _ => rfl) (fun _ h => by cases h) (fun _ _ _ _ _ _ _ _ => trivial)
+    1 [121] (.dataRef 1 [108] .nil) 2 (.cons (.print 2 (.dataRef 2 [121] .nil) []) .nil) (by decide) ctx0 stL envL relL
+    ⟨⟨1, false⟩, [⟨0, true⟩], ⟨[], false⟩, rfl, rfl, rfl⟩ (by intro f hf; simp [ctx0] at hf; rcases hf with rfl | rfl <;> simp [stL])
+    (list_variable_agrees g0 1 [108] rfl ctx0 stL envL 7 [.str [97], .str [98]] (by simp [Scalar]) rfl rfl)
+  have hs : Spec.Eval.renderCmd [] false true envL.vars (fun _ _ => .unspec) none
+      (.forc 1 [121] (.dataRef 1 [108] .nil) (.mk 2 (.cons (.print 2 (.dataRef 2 [121] .nil) []) .nil)) none) envL = .val ([97, 98], envL) := by rfl
+  rw [hs] at h
+  simpa [bufBytes, stL] using h.2.1
+
+/-! ### a content param: `{call .c}{param p}{let $x: 'L' /}({$x}){/param}{/call}` with .c = `[{$p}]`: "[(L)]" -/
+
+def tCallerContent : Registry.Tmpl :=
+  { name := [116], params := [],
+    body := .mk 1 (.cons (.call 3 [99] false none (.content 4 [112]
+        (.mk 5 (.cons (.letValue 5 [120] (.str 5 [] [76])) (.cons (.rawText 6 [40])
+          (.cons (.print 6 (.dataRef 6 [120] .nil) []) (.cons (.rawText 7 [41]) .nil))))) .nil)) .nil),
+    autoescape := .unspecified, nsName := [110], nsAutoescape := .unspecified, pos := 0, file := [102], text := [] }
+
+def gContent : GEnv := { reg := [tCallerContent, tCallee], globals := [], ij := none, msgs := none, tbl := [], oblig := [] }
+
+example : (execute gContent [116] [] 4).cls = .ok ∧ (execute gContent [116] [] 4).chunks.flatten = [91, 40, 76, 41, 93] := by
+  have hfr : regFrag noColl gContent.reg := by
+    intro t ht
+    simp only [gContent, List.mem_cons, List.mem_nil_iff, or_false] at ht
+    rcases ht with rfl | rfl <;> decide
+  have h := render_refines_lexical_partial noColl gContent rfl hfr (by simp [gContent]) [116] [] (by simp) 4 none false (fun _ => rfl) none (fun _ h => by cases h)
+  have hs : Spec.Eval.render gContent.reg (absK gContent.globals) none false [116] (absK []) 4 = .val [91, 40, 76, 41, 93] := by rfl
+  rw [hs] at h
+  exact h
+
+/-! ### {msg} without a bundle: `{msg desc=""}H{$x}{plural $n}{case 1}one{default}{$n}s{/plural}{/msg}` on
+    x = 'out', n = 3: "Hout3s" -/
+
+def tMsg : Registry.Tmpl :=
+  { name := [116], params := [],
+    body := .mk 1 (.cons (.msg 2 77 [] [] 3
+        (.text 3 [72] (.ph 4 [88] (.cmd (.print 4 (.dataRef 4 [120] .nil) []))
+          (.plural 5 [78] (.dataRef 5 [110] .nil)
+            (.cons 6 1 7 (.text 7 [111, 110, 101] .nil) .nil) 8
+            (.ph 8 [78] (.cmd (.print 8 (.dataRef 8 [110] .nil) [])) (.text 9 [115] .nil)) .nil)))) .nil),
+    autoescape := .unspecified, nsName := [110], nsAutoescape := .unspecified, pos := 0, file := [102], text := [] }
+
+def gMsg : GEnv := { reg := [tMsg], globals := [], ij := none, msgs := none, tbl := [], oblig := [] }
+
+def dataMsg : Frame := [([120], .str [111, 117, 116]), ([110], .int 3)]
+
+example : (execute gMsg [116] dataMsg 4).cls = .ok ∧ (execute gMsg [116] dataMsg 4).chunks.flatten = [72, 111, 117, 116, 51, 115] := by
+  have hfr : regFrag noColl gMsg.reg := by
+    intro t ht
+    simp only [gMsg, List.mem_cons, List.mem_nil_iff, or_false] at ht
+    subst ht; decide
+  have h := render_refines_lexical_partial noColl gMsg rfl hfr (by simp [gMsg]) [116] dataMsg
+    (by simp [dataMsg, OkAt, Scalar, Shallow]) 4 none false (fun _ => rfl) none (fun _ h => by cases h)
+  have hs : Spec.Eval.render gMsg.reg (absK gMsg.globals) none false [116] (absK dataMsg) 4 = .val [72, 111, 117, 116, 51, 115] := by rfl
+  rw [hs] at h
+  exact h
+
+/-! ### print directives: the interpreter's own library as the specification's `DirSem` -/
+
+/-- scalars back into the interpreter's values -/
+def concV : Val → Value
+  | .undefined => .undefined
+  | .null => .null
+  | .bool b => .bool b
+  | .int i => .int (Int64.ofInt i)
+  | .float f => .float f
+  | .str s => .str s
+  | .list _ => .undefined
+  | .map _ => .undefined
+
+theorem concV_absV (mv : Value) (h : Scalar mv = true) : concV (absV mv) = mv := by
+  cases mv <;> simp_all [absV, concV, Scalar]
+
+theorem concL_absL : ∀ (l : List Value), (∀ x ∈ l, Scalar x = true) → (absL l).map concV = l
+  | [], _ => rfl
+  | x :: r, h => by
+    simp only [absL, List.map_cons]
+    rw [concV_absV x (h x List.mem_cons_self), concL_absL r (fun y hy => h y (List.mem_cons_of_mem _ hy))]
+
+theorem applyDirective_scalar (impl : Bytes) (mv : Value) (args : List Value) (r : Value) (h : Scalar mv = true)
+    (ha : applyDirective impl mv args = some r) : Scalar r = true := by
+  unfold applyDirective at ha
+  have key : r = mv ∨ ∃ s, r = .str s := by
+    repeat' split at ha
+    all_goals (try simp at ha)
+    all_goals (try split at ha)
+    all_goals (try simp at ha)
+    all_goals first
+      | exact Or.inl ha.symm
+      | exact Or.inl ha.2.symm
+      | exact Or.inr ⟨_, ha.symm⟩
+      | (obtain ⟨j, _, hj⟩ := ha; exact Or.inr ⟨_, hj.symm⟩)
+  rcases key with rfl | ⟨s, rfl⟩
+  · exact h
+  · rfl
+
+/-- the directive semantics of the interpreter's library: its table, its implementations (on scalars) -/
+def modelDirSem (tbl : Directives.Table) : Spec.Eval.DirSem :=
+  { lookup := fun name => (Directives.lookup tbl name).map fun e => (e.arities, e.impl, e.cancel)
+    apply := fun impl v args =>
+      match applyDirective impl (concV v) (args.map concV) with
+      | some r => .val (absV r)
+      | none => .error }
+
+theorem modelDirSem_ok (g : GEnv) : DirOk g (some (modelDirSem g.tbl)) := by
+  intro D hD
+  simp only [Option.some.injEq] at hD
+  subst hD
+  refine ⟨fun _ => rfl, ?_⟩
+  intro impl mv margs hsc hscs
+  simp only [modelDirSem, concV_absV mv hsc, concL_absL margs hscs]
+  cases ha : applyDirective impl mv margs with
+  | none => exact ⟨fun v' h => by simp at h, fun _ => rfl⟩
+  | some r =>
+    refine ⟨fun v' h => ?_, fun h => by simp at h⟩
+    simp only [Out.val.injEq] at h
+    exact ⟨r, rfl, h, applyDirective_scalar impl mv margs r hsc ha⟩
+
+/-! `{$x}{$x|noAutoescape}{$x|truncate:2|noAutoescape}` on x = '<b>c': "&lt;b&gt;c" "<b>c" "<b" -/
+
+def sNoAutoescape : Bytes := [110, 111, 65, 117, 116, 111, 101, 115, 99, 97, 112, 101]
+def sTruncate : Bytes := [116, 114, 117, 110, 99, 97, 116, 101]
+
+def tDir : Registry.Tmpl :=
+  { name := [116], params := [],
+    body := .mk 1 (.cons (.print 2 (.dataRef 2 [120] .nil) [])
+      (.cons (.print 3 (.dataRef 3 [120] .nil) [⟨3, sNoAutoescape, []⟩])
+      (.cons (.print 4 (.dataRef 4 [120] .nil) [⟨4, sTruncate, [.int 4 2]⟩, ⟨4, sNoAutoescape, []⟩]) .nil))),
+    autoescape := .unspecified, nsName := [110], nsAutoescape := .unspecified, pos := 0, file := [102], text := [] }
+
+def gDir : GEnv := { reg := [tDir], globals := [], ij := none, msgs := none, tbl := Gen.directiveTable, oblig := [] }
+
+example : (execute gDir [116] [([120], .str [60, 98, 62, 99])] 4).cls = .ok ∧
+    (execute gDir [116] [([120], .str [60, 98, 62, 99])] 4).chunks.flatten =
+      [38, 108, 116, 59, 98, 38, 103, 116, 59, 99, 60, 98, 62, 99, 60, 98] := by
+  have hfr : regFrag noColl gDir.reg := by
+    intro t ht
+    simp only [gDir, List.mem_cons, List.mem_nil_iff, or_false] at ht
+    subst ht; decide
+  have h := render_refines_lexical_partial noColl gDir rfl hfr (by simp [gDir]) [116] [([120], .str [60, 98, 62, 99])]
+    (by simp [OkAt, Scalar, Shallow]) 4 none false (fun _ => rfl) (some (modelDirSem gDir.tbl)) (modelDirSem_ok gDir)
+  have hs : Spec.Eval.render gDir.reg (absK gDir.globals) none false [116] (absK [([120], .str [60, 98, 62, 99])]) 4
+      (some (modelDirSem gDir.tbl)) = .val [38, 108, 116, 59, 98, 38, 103, 116, 59, 99, 60, 98, 62, 99, 60, 98] := by rfl
   rw [hs] at h
   exact h
 
@@ -1460,9 +2403,9 @@ def body2 : Block :=
 example : bufBytes (execBody g0 true (fun _ ctx st => ⟨.fuelOut, ctx, st⟩) body2 ctx0 st0).st.out = [49, 50, 51, 111, 117, 116] := by
   have hcall : ∀ t, GoodRun ((fun _ ctx st => ⟨.fuelOut, ctx, st⟩ : Registry.Tmpl → Run) t) :=
     fun _ ctx st _ => ⟨by simp, fun h => by simp at h, Ext.refl _ _⟩
-  have h := exec_refines_lexical_partial g0 rfl true _ hcall [] false [] (fun _ _ => .unspec) rfl (fun _ _ _ _ _ _ _ _ => trivial) body2 (by decide) ctx0 st0 env0 rel0
+  have h := exec_refines_lexical_partial g0 rfl true _ hcall [] false env0.vars (fun _ _ => .unspec) none rfl (fun _ => rfl) (fun _ h => by cases h) (fun _ _ _ _ _ _ _ _ => trivial) body2 (by decide) ctx0 st0 env0 rel0
     ⟨⟨1, false⟩, [⟨0, true⟩], ⟨[], false⟩, rfl, rfl, rfl⟩ (by intro f hf; simp [ctx0] at hf; rcases hf with rfl | rfl <;> simp [st0])
-  have hs : Spec.Eval.renderBlock [] false true [] (fun _ _ => .unspec) body2 env0 = .val [49, 50, 51, 111, 117, 116] := by rfl
+  have hs : Spec.Eval.renderBlock [] false true env0.vars (fun _ _ => .unspec) none body2 env0 = .val [49, 50, 51, 111, 117, 116] := by rfl
   rw [hs] at h
   simpa [bufBytes, st0] using h.2
 
